@@ -73,6 +73,53 @@ Theorem C06_spend_refuted_histories_fixed_by_guard :
 Proof. exact spend_refuted_histories_fixed_by_guard. Qed.
 Print Assumptions C06_spend_refuted_histories_fixed_by_guard.
 
+(* ================= the steps AS THE TREE HAS THEM NOW (flags regenerated from /repo by gen_panics) ================= *)
+(* HEADLINE for the spending step on this tree (guard of fix 2d6ac44 present): the end-blocker completes on
+   EVERY stored pool list.  If the guard disappears the flag becomes false and this proof no longer checks. *)
+Theorem C06_spend_endblock_never_panics : forall now ps, forallb pool_bounded ps = true ->
+  is_panic (spend_endblock spend_endblock_guarded now ps) = false.
+Proof. exact spend_endblock_guarded_never_panics. Qed.
+Print Assumptions C06_spend_endblock_never_panics.
+(* ... and one whole EndBlock of gov + staking + spending, with no condition on the pools beyond magnitudes *)
+Theorem C06_blocks_never_panic_this_tree : forall now w,
+  Forall (fun qg => 0 <= fst qg <= PREC /\ g_inv (snd qg) /\ Z.of_nat (List.length (g_holders (snd qg))) < 2 ^ 64) (w_due w) ->
+  v_inv (w_val w) = true -> forallb pool_bounded (w_pools w) = true ->
+  is_panic (end_block spend_endblock_guarded now w) = false.
+Proof. exact blocks_never_panic_guarded. Qed.
+Print Assumptions C06_blocks_never_panic_this_tree.
+(* for the sites whose repair is still pending the statement follows the tree: refuted while the flag says
+   "unguarded", full strength once the fix patch is in (fixes/C06-*.patch) *)
+Theorem C06_proposal_quorum_on_this_tree :
+  if gov_proposal_quorum_error_panics
+  then (exists q votes voters, 0 <= q <= PREC /\ 0 <= voters < 2 ^ 64 /\ is_panic (process_quorum_on gov_proposal_quorum_error_panics q votes voters) = true)
+  else (forall q votes voters, 0 <= q -> 0 <= voters < 2 ^ 64 -> is_panic (process_quorum_on gov_proposal_quorum_error_panics q votes voters) = false).
+Proof. exact (quorum_by_flag gov_proposal_quorum_error_panics). Qed.
+Print Assumptions C06_proposal_quorum_on_this_tree.
+Theorem C06_poll_quorum_on_this_tree :
+  if gov_poll_quorum_error_panics
+  then (exists q votes voters, 0 <= q <= PREC /\ 0 <= voters < 2 ^ 64 /\ is_panic (process_quorum_on gov_poll_quorum_error_panics q votes voters) = true)
+  else (forall q votes voters, 0 <= q -> 0 <= voters < 2 ^ 64 -> is_panic (process_quorum_on gov_poll_quorum_error_panics q votes voters) = false).
+Proof. exact (quorum_by_flag gov_poll_quorum_error_panics). Qed.
+Print Assumptions C06_poll_quorum_on_this_tree.
+Theorem C06_withdraw_on_this_tree :
+  if withdraw_sub_unchecked
+  then (exists n amt s1 s2, lifecycle (withdraw_handler_on withdraw_sub_unchecked n amt) s1 s2 = Some (Panic "neg-coin"))
+  else (forall n amt s, is_panic (apply_proposal (withdraw_handler_on withdraw_sub_unchecked n amt) s) = false).
+Proof. exact (withdraw_by_flag withdraw_sub_unchecked). Qed.
+Print Assumptions C06_withdraw_on_this_tree.
+Theorem C06_claim_on_this_tree :
+  if claim_sub_unchecked
+  then (exists poolbal rate w cstart last now cend expiry, claim_on claim_sub_unchecked poolbal rate w cstart last now cend expiry = Panic "neg-coin")
+  else (forall poolbal rate w cstart last now cend expiry, claim_on claim_sub_unchecked poolbal rate w cstart last now cend expiry <> Panic "neg-coin").
+Proof. exact (claim_by_flag claim_sub_unchecked). Qed.
+Print Assumptions C06_claim_on_this_tree.
+Theorem C06_ubi_mint_on_this_tree :
+  if ubi_amount_cast_int64
+  then (exists amount, 0 <= amount < two64 /\ ubi_mint_on ubi_amount_cast_int64 amount = Panic "neg-coin")
+  else (forall amount, is_panic (ubi_mint_on ubi_amount_cast_int64 amount) = false).
+Proof. exact (ubi_by_flag ubi_amount_cast_int64). Qed.
+Print Assumptions C06_ubi_mint_on_this_tree.
+
 (* ---------------- proposal enactment *)
 Theorem C06_input_only_panics_filtered : forall {S} (h : S -> outcome S),
   (forall s, is_panic (h s) = true) -> forall s1 s2, lifecycle h s1 s2 = None.
@@ -146,301 +193,318 @@ Print Assumptions C06_chk_accepts_upgrade_halt.
 (* (function, kind, number of such sites in that function on the pinned tree, reason).  A NEW site
    (another function, another kind, or one more site of a kind in a listed function) is not accounted
    for and breaks C06_panic_sites_accounted. *)
-Definition covered_table : list (string * string * nat * string) := [
-  ("x/distributor/keeper.Keeper.AllocateTokens", "quo", 3%nat, "Halt.allocate: snap period and InflationPeriod divisors; InflationPeriod >= 2629800 by the validated network properties (C19), SnapPeriod comes from genesis only (default 1000) -- zero only with a broken genesis");
-  ("x/distributor/keeper.Keeper.AllocateTokensToValidator", "panic", 3%nat, "Halt.allocate / pay_from_collector: unreachable under allocate_never_panics' hypotheses (reward <= fees collected + inflation just minted)");
-  ("x/feeprocessing/keeper.Keeper.ProcessExecutionFeeReturn", "panic", 1%nat, "Halt.pay_from_collector: reachable only if the fee collector cannot cover the refund (collector_shortfall_panics; depends on C04/C10 over-crediting) -- not reproduced");
-  ("x/gov.processPoll", "panic", 2%nat, "Halt.process_quorum: reachable, finding processPoll:votes-gt-voters; GetPoll error unreachable (polls are never deleted)");
-  ("x/gov.processProposal", "panic", 2%nat, "Halt.process_quorum (IsQuorum error => panic): reachable, findings votes-gt-voters / quorum-gt-1; the 'proposal was expected to exist' panic is unreachable (queue entries are written together with the proposal, proposals are never deleted)");
-  ("x/gov/types.ProposalRouter.ApplyProposal", "panic", 1%nat, "Halt.apply_proposal: 'invalid proposal type' unreachable: SubmitProposal dry-runs ApplyProposal with the same content type first (input_only_panics_filtered), routes are fixed at start-up");
-  ("x/spending.ApplySpendingPoolWithdrawProposalHandler.Apply", "sub", 1%nat, "Halt.withdraw_loop: reachable, finding Withdraw.Apply:neg-coin");
-  ("x/spending/keeper.Keeper.ClaimSpendingPool", "newcoin", 1%nat, "Halt.claim (NewCoin of a negative amount): reachable with a negative beneficiary weight, same finding class neg-coin");
-  ("x/spending/keeper.Keeper.ClaimSpendingPool", "sub", 1%nat, "Halt.claim (Coins.Sub): reachable through SpendingPoolDistribution.Apply, finding ClaimSpendingPool:neg-coin");
-  ("x/spending/keeper.Keeper.EndBlocker", "quo", 1%nat, "Halt.spend_pool_step (dquo): reachable, finding EndBlocker:div-by-zero");
-  ("x/spending/keeper.Keeper.EndBlocker", "newcoin", 1%nat, "Halt.new_dec_coin: reachable, finding EndBlocker:neg-deccoin");
-  ("x/staking/keeper.Keeper.BlockValidatorUpdates", "panic", 1%nat, "Halt.vend: unreachable under v_inv (staking_updates_never_panic): queues only receive keys of existing validators and validators are never deleted");
-  ("x/ubi.ApplyUpsertUBIProposalHandler.Apply", "div", 3%nat, "Halt.ubi_apply: division by Period is input-only: Period = 0 panics in the dry run and fails the submission (ubi_period_zero_filtered); record.Period of stored records is therefore non-zero");
-  ("x/ubi/keeper.Keeper.ProcessUBIRecord", "newcoin", 1%nat, "Halt.ubi_mint: reachable, finding ProcessUBIRecord:neg-coin (amount >= 2^63 passes the wrapping hard-cap check)");
-  ("x/upgrade/keeper.Keeper.ApplyUpgradePlan", "panic", 3%nat, "Halt.upgrade_begin: the sanctioned halt (upgrade_halt_only_when_due); PauseProposalNotApprovedValidators errs only for a missing proposal (never deleted)")
+Definition covered_table : list (string * string * nat * string * list string) := [
+  ("x/distributor/keeper.Keeper.AllocateTokens", "quo", 3%nat, "Halt.allocate: snap period and InflationPeriod divisors; InflationPeriod >= 2629800 by the validated network properties (C19), SnapPeriod comes from genesis only (default 1000) -- zero only with a broken genesis", []);
+  ("x/distributor/keeper.Keeper.AllocateTokensToValidator", "panic", 3%nat, "Halt.allocate / pay_from_collector: unreachable under allocate_never_panics' hypotheses (reward <= fees collected + inflation just minted)", []);
+  ("x/feeprocessing/keeper.Keeper.ProcessExecutionFeeReturn", "panic", 1%nat, "Halt.pay_from_collector: reachable only if the fee collector cannot cover the refund (collector_shortfall_panics; depends on C04/C10 over-crediting) -- not reproduced", []);
+  ("x/gov.processPoll", "panic", 2%nat, "Halt.process_quorum: reachable, finding processPoll:votes-gt-voters; GetPoll error unreachable (polls are never deleted)", []);
+  ("x/gov.processProposal", "panic", 2%nat, "Halt.process_quorum (IsQuorum error => panic): reachable, findings votes-gt-voters / quorum-gt-1; the 'proposal was expected to exist' panic is unreachable (queue entries are written together with the proposal, proposals are never deleted)", []);
+  ("x/gov/types.ProposalRouter.ApplyProposal", "panic", 1%nat, "Halt.apply_proposal: 'invalid proposal type' unreachable: SubmitProposal dry-runs ApplyProposal with the same content type first (input_only_panics_filtered), routes are fixed at start-up", []);
+  ("x/spending.ApplySpendingPoolWithdrawProposalHandler.Apply", "sub", 1%nat, "Halt.withdraw_loop: reachable, finding Withdraw.Apply:neg-coin", []);
+  ("x/spending/keeper.Keeper.ClaimSpendingPool", "newcoin", 1%nat, "Halt.claim (NewCoin of a negative amount): reachable with a negative beneficiary weight, same finding class neg-coin", []);
+  ("x/spending/keeper.Keeper.ClaimSpendingPool", "sub", 1%nat, "Halt.claim (Coins.Sub): reachable through SpendingPoolDistribution.Apply, finding ClaimSpendingPool:neg-coin", []);
+  ("x/spending/keeper.Keeper.EndBlocker", "quo", 1%nat, "Halt.spend_pool_step: guarded since fix 2d6ac44 (denominator positive), C06_spend_endblock_never_panics; flag spend_endblock_guarded regenerated from the tree", []);
+  ("x/spending/keeper.Keeper.EndBlocker", "newcoin", 1%nat, "Halt.new_dec_coin: rate = non-negative deposit / positive denominator since fix 2d6ac44", []);
+  ("x/staking/keeper.Keeper.BlockValidatorUpdates", "panic", 1%nat, "Halt.vend: unreachable under v_inv (staking_updates_never_panic): queues only receive keys of existing validators and validators are never deleted", []);
+  ("x/ubi.ApplyUpsertUBIProposalHandler.Apply", "div", 3%nat, "Halt.ubi_apply: division by Period is input-only: Period = 0 panics in the dry run and fails the submission (ubi_period_zero_filtered); record.Period of stored records is therefore non-zero", []);
+  ("x/ubi/keeper.Keeper.ProcessUBIRecord", "newcoin", 1%nat, "Halt.ubi_mint: reachable, finding ProcessUBIRecord:neg-coin (amount >= 2^63 passes the wrapping hard-cap check)", []);
+  ("x/upgrade/keeper.Keeper.ApplyUpgradePlan", "panic", 3%nat, "Halt.upgrade_begin: the sanctioned halt (upgrade_halt_only_when_due); PauseProposalNotApprovedValidators errs only for a missing proposal (never deleted)", [])
 ].
-Definition audit_table : list (string * string * nat * string) := [
-  ("x/basket.ApplyBasketWithdrawSurplusProposalHandler.Apply", "assert", 1%nat, "proposal content assertion inside its own handler: the router dispatches on ProposalType() of the same content, so the dynamic type matches");
-  ("x/basket.ApplyCreateBasketProposalHandler.Apply", "assert", 1%nat, "proposal content assertion inside its own handler: the router dispatches on ProposalType() of the same content, so the dynamic type matches");
-  ("x/basket.ApplyEditBasketProposalHandler.Apply", "assert", 1%nat, "proposal content assertion inside its own handler: the router dispatches on ProposalType() of the same content, so the dynamic type matches");
-  ("x/basket/keeper.Keeper.AfterSlashStakingPool", "sub", 1%nat, "sdk.Int / time subtraction or Coins.Sub guarded by an error-returning balance check before it");
-  ("x/basket/keeper.Keeper.CreateBasket", "index", 2%nat, "map lookup or index bounded by the enclosing loop / length check");
-  ("x/basket/keeper.Keeper.EditBasket", "index", 6%nat, "map lookup or index bounded by the enclosing loop / length check");
-  ("x/basket/keeper.Keeper.GetAllBaskets", "must", 1%nat, "decodes bytes (or re-parses an address) that this module stored itself with the matching Marshal; layer2 TeamReserve / basket denoms validated at creation -- audited by kind");
-  ("x/basket/keeper.Keeper.GetBasketById", "must", 1%nat, "decodes bytes (or re-parses an address) that this module stored itself with the matching Marshal; layer2 TeamReserve / basket denoms validated at creation -- audited by kind");
-  ("x/basket/keeper.Keeper.SetBasket", "must", 1%nat, "decodes bytes (or re-parses an address) that this module stored itself with the matching Marshal; layer2 TeamReserve / basket denoms validated at creation -- audited by kind");
-  ("x/basket/types.Basket.RatesAndIndexes", "index", 2%nat, "map lookup or index bounded by the enclosing loop / length check");
-  ("x/collectives.ApplyCollectiveRemoveProposalHandler.AllowedAddresses", "assert", 1%nat, "proposal content assertion inside its own handler: the router dispatches on ProposalType() of the same content, so the dynamic type matches");
-  ("x/collectives.ApplyCollectiveRemoveProposalHandler.Apply", "assert", 1%nat, "proposal content assertion inside its own handler: the router dispatches on ProposalType() of the same content, so the dynamic type matches");
-  ("x/collectives.ApplyCollectiveRemoveProposalHandler.IsAllowedAddress", "assert", 1%nat, "proposal content assertion inside its own handler: the router dispatches on ProposalType() of the same content, so the dynamic type matches");
-  ("x/collectives.ApplyCollectiveRemoveProposalHandler.Quorum", "assert", 1%nat, "proposal content assertion inside its own handler: the router dispatches on ProposalType() of the same content, so the dynamic type matches");
-  ("x/collectives.ApplyCollectiveRemoveProposalHandler.VoteEnactment", "assert", 1%nat, "proposal content assertion inside its own handler: the router dispatches on ProposalType() of the same content, so the dynamic type matches");
-  ("x/collectives.ApplyCollectiveRemoveProposalHandler.VotePeriod", "assert", 1%nat, "proposal content assertion inside its own handler: the router dispatches on ProposalType() of the same content, so the dynamic type matches");
-  ("x/collectives.ApplyCollectiveSendDonationProposalHandler.AllowedAddresses", "assert", 1%nat, "proposal content assertion inside its own handler: the router dispatches on ProposalType() of the same content, so the dynamic type matches");
-  ("x/collectives.ApplyCollectiveSendDonationProposalHandler.Apply", "assert", 1%nat, "proposal content assertion inside its own handler: the router dispatches on ProposalType() of the same content, so the dynamic type matches");
-  ("x/collectives.ApplyCollectiveSendDonationProposalHandler.IsAllowedAddress", "assert", 1%nat, "proposal content assertion inside its own handler: the router dispatches on ProposalType() of the same content, so the dynamic type matches");
-  ("x/collectives.ApplyCollectiveSendDonationProposalHandler.Quorum", "assert", 1%nat, "proposal content assertion inside its own handler: the router dispatches on ProposalType() of the same content, so the dynamic type matches");
-  ("x/collectives.ApplyCollectiveSendDonationProposalHandler.VoteEnactment", "assert", 1%nat, "proposal content assertion inside its own handler: the router dispatches on ProposalType() of the same content, so the dynamic type matches");
-  ("x/collectives.ApplyCollectiveSendDonationProposalHandler.VotePeriod", "assert", 1%nat, "proposal content assertion inside its own handler: the router dispatches on ProposalType() of the same content, so the dynamic type matches");
-  ("x/collectives.ApplyCollectiveUpdateProposalHandler.AllowedAddresses", "assert", 1%nat, "proposal content assertion inside its own handler: the router dispatches on ProposalType() of the same content, so the dynamic type matches");
-  ("x/collectives.ApplyCollectiveUpdateProposalHandler.Apply", "assert", 1%nat, "proposal content assertion inside its own handler: the router dispatches on ProposalType() of the same content, so the dynamic type matches");
-  ("x/collectives.ApplyCollectiveUpdateProposalHandler.IsAllowedAddress", "assert", 1%nat, "proposal content assertion inside its own handler: the router dispatches on ProposalType() of the same content, so the dynamic type matches");
-  ("x/collectives.ApplyCollectiveUpdateProposalHandler.Quorum", "assert", 1%nat, "proposal content assertion inside its own handler: the router dispatches on ProposalType() of the same content, so the dynamic type matches");
-  ("x/collectives.ApplyCollectiveUpdateProposalHandler.VoteEnactment", "assert", 1%nat, "proposal content assertion inside its own handler: the router dispatches on ProposalType() of the same content, so the dynamic type matches");
-  ("x/collectives.ApplyCollectiveUpdateProposalHandler.VotePeriod", "assert", 1%nat, "proposal content assertion inside its own handler: the router dispatches on ProposalType() of the same content, so the dynamic type matches");
-  ("x/collectives/keeper.Keeper.AllowedAddresses", "index", 4%nat, "map lookup or index bounded by the enclosing loop / length check");
-  ("x/collectives/keeper.Keeper.GetAllCollectives", "must", 1%nat, "decodes bytes (or re-parses an address) that this module stored itself with the matching Marshal; layer2 TeamReserve / basket denoms validated at creation -- audited by kind");
-  ("x/collectives/keeper.Keeper.GetCollective", "must", 1%nat, "decodes bytes (or re-parses an address) that this module stored itself with the matching Marshal; layer2 TeamReserve / basket denoms validated at creation -- audited by kind");
-  ("x/collectives/keeper.Keeper.GetCollectiveContributer", "must", 1%nat, "decodes bytes (or re-parses an address) that this module stored itself with the matching Marshal; layer2 TeamReserve / basket denoms validated at creation -- audited by kind");
-  ("x/collectives/keeper.Keeper.GetCollectiveContributers", "must", 1%nat, "decodes bytes (or re-parses an address) that this module stored itself with the matching Marshal; layer2 TeamReserve / basket denoms validated at creation -- audited by kind");
-  ("x/collectives/keeper.Keeper.IsAllowedAddress", "index", 2%nat, "map lookup or index bounded by the enclosing loop / length check");
-  ("x/collectives/keeper.Keeper.SendDonation", "sub", 1%nat, "sdk.Int / time subtraction or Coins.Sub guarded by an error-returning balance check before it");
-  ("x/collectives/keeper.Keeper.SetCollective", "must", 1%nat, "decodes bytes (or re-parses an address) that this module stored itself with the matching Marshal; layer2 TeamReserve / basket denoms validated at creation -- audited by kind");
-  ("x/collectives/keeper.Keeper.WithdrawCollective", "must", 1%nat, "decodes bytes (or re-parses an address) that this module stored itself with the matching Marshal; layer2 TeamReserve / basket denoms validated at creation -- audited by kind");
-  ("x/collectives/keeper.Keeper.WithdrawCollective", "sub", 3%nat, "sdk.Int / time subtraction or Coins.Sub guarded by an error-returning balance check before it");
-  ("x/collectives/keeper.calcPortion", "newcoin", 1%nat, "amount is a product/fraction of non-negative stored amounts; denom validated at creation");
-  ("x/distributor/keeper.Keeper.AllocateTokens", "sub", 4%nat, "guarded by IsAllGTE / sdk.Int.Sub does not panic");
-  ("x/distributor/keeper.Keeper.AllocateTokens", "newcoin", 5%nat, "amounts are products of non-negative values and a commission in [1%,50%] (MsgUpsertStakingPool.ValidateBasic); dead code on the pinned tree (votes are wiped in EndBlocker, C10 finding, so power = 0)");
-  ("x/distributor/keeper.Keeper.AllocateTokens", "panic", 2%nat, "unreachable: minting to the mint module / transfer of the amount just minted");
-  ("x/distributor/keeper.Keeper.BeginBlocker", "panic", 1%nat, "unreachable: ConsAddr strings written by SetValidatorVote itself");
-  ("x/distributor/keeper.Keeper.GetFeesTreasury", "panic", 1%nat, "unreachable: parses the string written by SetFeesTreasury");
-  ("x/distributor/keeper.Keeper.GetPeriodicSnapshot", "must", 1%nat, "decodes bytes (or re-parses an address) that this module stored itself with the matching Marshal; layer2 TeamReserve / basket denoms validated at creation -- audited by kind");
-  ("x/distributor/keeper.Keeper.GetPreviousProposerConsAddr", "panic", 1%nat, "unreachable after height 1 (set in every BeginBlock); an import at initial height > 1 without the key: C12");
-  ("x/distributor/keeper.Keeper.GetYearStartSnapshot", "must", 1%nat, "decodes bytes (or re-parses an address) that this module stored itself with the matching Marshal; layer2 TeamReserve / basket denoms validated at creation -- audited by kind");
-  ("x/distributor/keeper.Keeper.InflationPossible", "div", 1%nat, "literal divisor arithmetic on constants");
-  ("x/distributor/keeper.Keeper.InflationPossible", "sub", 1%nat, "sdk.Int/Dec Sub: no panic");
-  ("x/distributor/keeper.Keeper.InflationPossible", "quo", 1%nat, "guarded by the zero-supply check above it");
-  ("x/distributor/keeper.Keeper.SetPeriodicSnapshot", "must", 1%nat, "decodes bytes (or re-parses an address) that this module stored itself with the matching Marshal; layer2 TeamReserve / basket denoms validated at creation -- audited by kind");
-  ("x/distributor/keeper.Keeper.SetYearStartSnapshot", "must", 1%nat, "decodes bytes (or re-parses an address) that this module stored itself with the matching Marshal; layer2 TeamReserve / basket denoms validated at creation -- audited by kind");
-  ("x/evidence.BeginBlocker", "assert", 1%nat, "proposal content assertion inside its own handler: the router dispatches on ProposalType() of the same content, so the dynamic type matches");
-  ("x/evidence/keeper.Keeper.GetEvidence", "must", 1%nat, "decodes bytes (or re-parses an address) that this module stored itself with the matching Marshal; layer2 TeamReserve / basket denoms validated at creation -- audited by kind");
-  ("x/evidence/keeper.Keeper.HandleEquivocationEvidence", "sub", 1%nat, "time.Sub: no panic");
-  ("x/evidence/keeper.Keeper.HandleEquivocationEvidence", "panic", 1%nat, "unreachable: signing info is created when the validator joins (AfterValidatorJoined hook)");
-  ("x/evidence/keeper.Keeper.MustMarshalEvidence", "panic", 1%nat, "unreachable: guards a store / codec invariant (record written together with its index)");
-  ("x/evidence/keeper.Keeper.SetEvidence", "must", 1%nat, "decodes bytes (or re-parses an address) that this module stored itself with the matching Marshal; layer2 TeamReserve / basket denoms validated at creation -- audited by kind");
-  ("x/evidence/types.Equivocation.Hash", "panic", 1%nat, "unreachable: guards a store / codec invariant (record written together with its index)");
-  ("x/evidence/types.FromABCIEvidence", "panic", 1%nat, "unreachable: guards a store / codec invariant (record written together with its index)");
-  ("x/feeprocessing/keeper.Keeper.ProcessExecutionFeeReturn", "newcoin", 1%nat, "amount is a product/fraction of non-negative stored amounts; denom validated at creation");
-  ("x/feeprocessing/keeper.Keeper.SendCoinsFromModuleToAccount", "sub", 2%nat, "sdk.Int / time subtraction or Coins.Sub guarded by an error-returning balance check before it");
-  ("x/feeprocessing/keeper.Keeper.SendCoinsFromModuleToAccount", "newcoin", 1%nat, "amount is a product/fraction of non-negative stored amounts; denom validated at creation");
-  ("x/gov.ApplyAssignRoleToAccountProposalHandler.Apply", "assert", 1%nat, "proposal content assertion inside its own handler: the router dispatches on ProposalType() of the same content, so the dynamic type matches");
-  ("x/gov.ApplyBlacklistAccountPermissionProposalHandler.Apply", "assert", 1%nat, "proposal content assertion inside its own handler: the router dispatches on ProposalType() of the same content, so the dynamic type matches");
-  ("x/gov.ApplyBlacklistRolePermissionProposalHandler.Apply", "assert", 1%nat, "proposal content assertion inside its own handler: the router dispatches on ProposalType() of the same content, so the dynamic type matches");
-  ("x/gov.ApplyJailCouncilorProposalHandler.Apply", "assert", 1%nat, "proposal content assertion inside its own handler: the router dispatches on ProposalType() of the same content, so the dynamic type matches");
-  ("x/gov.ApplyRemoveBlacklistedAccountPermissionProposalHandler.Apply", "assert", 1%nat, "proposal content assertion inside its own handler: the router dispatches on ProposalType() of the same content, so the dynamic type matches");
-  ("x/gov.ApplyRemoveBlacklistedRolePermissionProposalHandler.Apply", "assert", 1%nat, "proposal content assertion inside its own handler: the router dispatches on ProposalType() of the same content, so the dynamic type matches");
-  ("x/gov.ApplyRemoveRoleProposalHandler.Apply", "assert", 1%nat, "proposal content assertion inside its own handler: the router dispatches on ProposalType() of the same content, so the dynamic type matches");
-  ("x/gov.ApplyRemoveWhitelistedAccountPermissionProposalHandler.Apply", "assert", 1%nat, "proposal content assertion inside its own handler: the router dispatches on ProposalType() of the same content, so the dynamic type matches");
-  ("x/gov.ApplyRemoveWhitelistedRolePermissionProposalHandler.Apply", "assert", 1%nat, "proposal content assertion inside its own handler: the router dispatches on ProposalType() of the same content, so the dynamic type matches");
-  ("x/gov.ApplyResetWholeCouncilorRankProposalHandler.Apply", "assert", 1%nat, "proposal content assertion inside its own handler: the router dispatches on ProposalType() of the same content, so the dynamic type matches");
-  ("x/gov.ApplySetExecutionFeesHandler.Apply", "assert", 1%nat, "proposal content assertion inside its own handler: the router dispatches on ProposalType() of the same content, so the dynamic type matches");
-  ("x/gov.ApplySetNetworkPropertyProposalHandler.Apply", "assert", 1%nat, "proposal content assertion inside its own handler: the router dispatches on ProposalType() of the same content, so the dynamic type matches");
-  ("x/gov.ApplySetPoorNetworkMessagesProposalHandler.Apply", "assert", 1%nat, "proposal content assertion inside its own handler: the router dispatches on ProposalType() of the same content, so the dynamic type matches");
-  ("x/gov.ApplyUnassignRoleFromAccountProposalHandler.Apply", "assert", 1%nat, "proposal content assertion inside its own handler: the router dispatches on ProposalType() of the same content, so the dynamic type matches");
-  ("x/gov.ApplyUpsertDataRegistryProposalHandler.Apply", "assert", 1%nat, "proposal content assertion inside its own handler: the router dispatches on ProposalType() of the same content, so the dynamic type matches");
-  ("x/gov.ApplyWhitelistAccountPermissionProposalHandler.Apply", "assert", 1%nat, "proposal content assertion inside its own handler: the router dispatches on ProposalType() of the same content, so the dynamic type matches");
-  ("x/gov.ApplyWhitelistRolePermissionProposalHandler.Apply", "assert", 1%nat, "proposal content assertion inside its own handler: the router dispatches on ProposalType() of the same content, so the dynamic type matches");
-  ("x/gov.CreateRoleProposalHandler.Apply", "assert", 1%nat, "proposal content assertion inside its own handler: the router dispatches on ProposalType() of the same content, so the dynamic type matches");
-  ("x/gov.SetProposalDurationsProposalHandler.Apply", "assert", 1%nat, "proposal content assertion inside its own handler: the router dispatches on ProposalType() of the same content, so the dynamic type matches");
-  ("x/gov.SetProposalDurationsProposalHandler.Apply", "index", 1%nat, "map lookup or index bounded by the enclosing loop / length check");
-  ("x/gov.processEnactmentProposal", "panic", 1%nat, "unreachable: enactment queue entries are written with the proposal; proposals are never deleted");
-  ("x/gov.processPoll", "index", 1%nat, "map lookup or index bounded by the enclosing loop / length check");
-  ("x/gov.processProposal", "index", 2%nat, "map lookup or index bounded by the enclosing loop / length check");
-  ("x/gov/keeper.CheckIfAllowedPermission", "index", 4%nat, "map lookup or index bounded by the enclosing loop / length check");
-  ("x/gov/keeper.Keeper.BlacklistRolePermission", "must", 1%nat, "decodes bytes (or re-parses an address) that this module stored itself with the matching Marshal; layer2 TeamReserve / basket denoms validated at creation -- audited by kind");
-  ("x/gov/keeper.Keeper.EnsureOldUniqueKeysNotRemoved", "index", 2%nat, "map lookup or index bounded by the enclosing loop / length check");
-  ("x/gov/keeper.Keeper.EnsureUniqueKeys", "index", 6%nat, "map lookup or index bounded by the enclosing loop / length check");
-  ("x/gov/keeper.Keeper.GetAllCouncilors", "must", 1%nat, "decodes bytes (or re-parses an address) that this module stored itself with the matching Marshal; layer2 TeamReserve / basket denoms validated at creation -- audited by kind");
-  ("x/gov/keeper.Keeper.GetAllIdentityRecords", "must", 1%nat, "decodes bytes (or re-parses an address) that this module stored itself with the matching Marshal; layer2 TeamReserve / basket denoms validated at creation -- audited by kind");
-  ("x/gov/keeper.Keeper.GetAverageVotesSlash", "quo", 1%nat, "guarded: divides by the number of votes only when it is non-zero");
-  ("x/gov/keeper.Keeper.GetExecutionFee", "must", 1%nat, "decodes bytes (or re-parses an address) that this module stored itself with the matching Marshal; layer2 TeamReserve / basket denoms validated at creation -- audited by kind");
-  ("x/gov/keeper.Keeper.GetNetworkActorByAddress", "must", 1%nat, "decodes bytes (or re-parses an address) that this module stored itself with the matching Marshal; layer2 TeamReserve / basket denoms validated at creation -- audited by kind");
-  ("x/gov/keeper.Keeper.GetNetworkActorOrFail", "panic", 1%nat, "unreachable: permission/role index entries are written and removed together with the actor record (C07 refinement)");
-  ("x/gov/keeper.Keeper.GetNetworkActorsByAbsoluteWhitelistPermission", "index", 2%nat, "map lookup or index bounded by the enclosing loop / length check");
-  ("x/gov/keeper.Keeper.GetNetworkProperties", "must", 1%nat, "decodes bytes (or re-parses an address) that this module stored itself with the matching Marshal; layer2 TeamReserve / basket denoms validated at creation -- audited by kind");
-  ("x/gov/keeper.Keeper.GetPermissionsForRole", "must", 1%nat, "decodes bytes (or re-parses an address) that this module stored itself with the matching Marshal; layer2 TeamReserve / basket denoms validated at creation -- audited by kind");
-  ("x/gov/keeper.Keeper.GetPoll", "must", 1%nat, "decodes bytes (or re-parses an address) that this module stored itself with the matching Marshal; layer2 TeamReserve / basket denoms validated at creation -- audited by kind");
-  ("x/gov/keeper.Keeper.GetPollVotes", "must", 1%nat, "decodes bytes (or re-parses an address) that this module stored itself with the matching Marshal; layer2 TeamReserve / basket denoms validated at creation -- audited by kind");
-  ("x/gov/keeper.Keeper.GetProposal", "must", 1%nat, "decodes bytes (or re-parses an address) that this module stored itself with the matching Marshal; layer2 TeamReserve / basket denoms validated at creation -- audited by kind");
-  ("x/gov/keeper.Keeper.GetProposalVotes", "must", 1%nat, "decodes bytes (or re-parses an address) that this module stored itself with the matching Marshal; layer2 TeamReserve / basket denoms validated at creation -- audited by kind");
-  ("x/gov/keeper.Keeper.GetProposals", "must", 1%nat, "decodes bytes (or re-parses an address) that this module stored itself with the matching Marshal; layer2 TeamReserve / basket denoms validated at creation -- audited by kind");
-  ("x/gov/keeper.Keeper.GetVotes", "must", 1%nat, "decodes bytes (or re-parses an address) that this module stored itself with the matching Marshal; layer2 TeamReserve / basket denoms validated at creation -- audited by kind");
-  ("x/gov/keeper.Keeper.RemoveBlacklistRolePermission", "must", 1%nat, "decodes bytes (or re-parses an address) that this module stored itself with the matching Marshal; layer2 TeamReserve / basket denoms validated at creation -- audited by kind");
-  ("x/gov/keeper.Keeper.RemoveWhitelistRolePermission", "must", 1%nat, "decodes bytes (or re-parses an address) that this module stored itself with the matching Marshal; layer2 TeamReserve / basket denoms validated at creation -- audited by kind");
-  ("x/gov/keeper.Keeper.SaveCouncilor", "must", 1%nat, "decodes bytes (or re-parses an address) that this module stored itself with the matching Marshal; layer2 TeamReserve / basket denoms validated at creation -- audited by kind");
-  ("x/gov/keeper.Keeper.SaveNetworkActor", "must", 1%nat, "decodes bytes (or re-parses an address) that this module stored itself with the matching Marshal; layer2 TeamReserve / basket denoms validated at creation -- audited by kind");
-  ("x/gov/keeper.Keeper.SavePoll", "must", 1%nat, "decodes bytes (or re-parses an address) that this module stored itself with the matching Marshal; layer2 TeamReserve / basket denoms validated at creation -- audited by kind");
-  ("x/gov/keeper.Keeper.SavePoorNetworkMessages", "must", 1%nat, "decodes bytes (or re-parses an address) that this module stored itself with the matching Marshal; layer2 TeamReserve / basket denoms validated at creation -- audited by kind");
-  ("x/gov/keeper.Keeper.SaveProposal", "must", 1%nat, "decodes bytes (or re-parses an address) that this module stored itself with the matching Marshal; layer2 TeamReserve / basket denoms validated at creation -- audited by kind");
-  ("x/gov/keeper.Keeper.SetExecutionFee", "must", 1%nat, "decodes bytes (or re-parses an address) that this module stored itself with the matching Marshal; layer2 TeamReserve / basket denoms validated at creation -- audited by kind");
-  ("x/gov/keeper.Keeper.SetNetworkProperties", "must", 1%nat, "decodes bytes (or re-parses an address) that this module stored itself with the matching Marshal; layer2 TeamReserve / basket denoms validated at creation -- audited by kind");
-  ("x/gov/keeper.Keeper.SetRole", "panic", 1%nat, "unreachable: guards a store / codec invariant (record written together with its index)");
-  ("x/gov/keeper.Keeper.UpsertDataRegistryEntry", "must", 1%nat, "decodes bytes (or re-parses an address) that this module stored itself with the matching Marshal; layer2 TeamReserve / basket denoms validated at creation -- audited by kind");
-  ("x/gov/keeper.Keeper.WhitelistRolePermission", "must", 1%nat, "decodes bytes (or re-parses an address) that this module stored itself with the matching Marshal; layer2 TeamReserve / basket denoms validated at creation -- audited by kind");
-  ("x/gov/keeper.Keeper.getCouncilorByKey", "must", 1%nat, "decodes bytes (or re-parses an address) that this module stored itself with the matching Marshal; layer2 TeamReserve / basket denoms validated at creation -- audited by kind");
-  ("x/gov/keeper.Keeper.savePermissionsForRole", "must", 1%nat, "decodes bytes (or re-parses an address) that this module stored itself with the matching Marshal; layer2 TeamReserve / basket denoms validated at creation -- audited by kind");
-  ("x/gov/keeper.ValidateRoleSidKey", "must", 1%nat, "decodes bytes (or re-parses an address) that this module stored itself with the matching Marshal; layer2 TeamReserve / basket denoms validated at creation -- audited by kind");
-  ("x/gov/keeper.getRolePermissions", "index", 1%nat, "map lookup or index bounded by the enclosing loop / length check");
-  ("x/gov/types.CalculatePollVotes", "index", 1%nat, "map lookup or index bounded by the enclosing loop / length check");
-  ("x/gov/types.CalculateVotes", "index", 1%nat, "map lookup or index bounded by the enclosing loop / length check");
-  ("x/gov/types.CalculatedPollVotes.ProcessResult", "quo", 1%nat, "Dec division by the number of voters, non-zero once quorum is reached with a positive VoteQuorum; with VoteQuorum = 0 and no actors: suspected, not reproduced");
-  ("x/gov/types.CalculatedPollVotes.ProcessResult", "index", 3%nat, "map lookup or index bounded by the enclosing loop / length check");
-  ("x/gov/types.CalculatedPollVotes.ProcessResult", "div", 2%nat, "float32 division: no panic");
-  ("x/gov/types.CalculatedVotes.ProcessResult", "div", 3%nat, "float32 division: no panic (C08 covers the result)");
-  ("x/gov/types.CalculatedVotes.ProcessResult", "index", 5%nat, "map lookup or index bounded by the enclosing loop / length check");
-  ("x/gov/types.ProposalRouter.AllowedAddressesDynamicProposal", "panic", 1%nat, "unreachable: same content type already routed at submission (state-independent, input_only_panics_filtered)");
-  ("x/gov/types.ProposalRouter.QuorumDynamicProposal", "panic", 1%nat, "unreachable: same content type already routed at submission (state-independent)");
-  ("x/layer2.ApplyJoinDappProposalHandler.AllowedAddresses", "assert", 1%nat, "proposal content assertion inside its own handler: the router dispatches on ProposalType() of the same content, so the dynamic type matches");
-  ("x/layer2.ApplyJoinDappProposalHandler.Apply", "assert", 1%nat, "proposal content assertion inside its own handler: the router dispatches on ProposalType() of the same content, so the dynamic type matches");
-  ("x/layer2.ApplyJoinDappProposalHandler.IsAllowedAddress", "assert", 1%nat, "proposal content assertion inside its own handler: the router dispatches on ProposalType() of the same content, so the dynamic type matches");
-  ("x/layer2.ApplyJoinDappProposalHandler.Quorum", "assert", 1%nat, "proposal content assertion inside its own handler: the router dispatches on ProposalType() of the same content, so the dynamic type matches");
-  ("x/layer2.ApplyJoinDappProposalHandler.VoteEnactment", "assert", 1%nat, "proposal content assertion inside its own handler: the router dispatches on ProposalType() of the same content, so the dynamic type matches");
-  ("x/layer2.ApplyJoinDappProposalHandler.VotePeriod", "assert", 1%nat, "proposal content assertion inside its own handler: the router dispatches on ProposalType() of the same content, so the dynamic type matches");
-  ("x/layer2.ApplyUpsertDappProposalHandler.AllowedAddresses", "assert", 1%nat, "proposal content assertion inside its own handler: the router dispatches on ProposalType() of the same content, so the dynamic type matches");
-  ("x/layer2.ApplyUpsertDappProposalHandler.Apply", "assert", 1%nat, "proposal content assertion inside its own handler: the router dispatches on ProposalType() of the same content, so the dynamic type matches");
-  ("x/layer2.ApplyUpsertDappProposalHandler.IsAllowedAddress", "assert", 1%nat, "proposal content assertion inside its own handler: the router dispatches on ProposalType() of the same content, so the dynamic type matches");
-  ("x/layer2.ApplyUpsertDappProposalHandler.Quorum", "assert", 1%nat, "proposal content assertion inside its own handler: the router dispatches on ProposalType() of the same content, so the dynamic type matches");
-  ("x/layer2.ApplyUpsertDappProposalHandler.VoteEnactment", "assert", 1%nat, "proposal content assertion inside its own handler: the router dispatches on ProposalType() of the same content, so the dynamic type matches");
-  ("x/layer2.ApplyUpsertDappProposalHandler.VotePeriod", "assert", 1%nat, "proposal content assertion inside its own handler: the router dispatches on ProposalType() of the same content, so the dynamic type matches");
-  ("x/layer2/keeper.Keeper.AllowedAddresses", "index", 4%nat, "map lookup or index bounded by the enclosing loop / length check");
-  ("x/layer2/keeper.Keeper.EndBlocker", "must", 1%nat, "decodes bytes (or re-parses an address) that this module stored itself with the matching Marshal; layer2 TeamReserve / basket denoms validated at creation -- audited by kind");
-  ("x/layer2/keeper.Keeper.EndBlocker", "newcoin", 1%nat, "amount is a product/fraction of non-negative stored amounts; denom validated at creation");
-  ("x/layer2/keeper.Keeper.EndBlocker", "panic", 1%nat, "premint payout of LP tokens minted at bootstrap for exactly this purpose");
-  ("x/layer2/keeper.Keeper.ExecuteDappRemove", "must", 1%nat, "decodes bytes (or re-parses an address) that this module stored itself with the matching Marshal; layer2 TeamReserve / basket denoms validated at creation -- audited by kind");
-  ("x/layer2/keeper.Keeper.FinishDappBootstrap", "quo", 1%nat, "guarded: drip == 0 => 1");
-  ("x/layer2/keeper.Keeper.FinishDappBootstrap", "newcoin", 4%nat, "amount is a product/fraction of non-negative stored amounts; denom validated at creation");
-  ("x/layer2/keeper.Keeper.FinishDappBootstrap", "panic", 2%nat, "mint to the layer2 module (minter) / payout of the premint just minted");
-  ("x/layer2/keeper.Keeper.FinishDappBootstrap", "must", 1%nat, "decodes bytes (or re-parses an address) that this module stored itself with the matching Marshal; layer2 TeamReserve / basket denoms validated at creation -- audited by kind");
-  ("x/layer2/keeper.Keeper.GetAllDapps", "must", 1%nat, "decodes bytes (or re-parses an address) that this module stored itself with the matching Marshal; layer2 TeamReserve / basket denoms validated at creation -- audited by kind");
-  ("x/layer2/keeper.Keeper.GetBridgeAccount", "must", 1%nat, "decodes bytes (or re-parses an address) that this module stored itself with the matching Marshal; layer2 TeamReserve / basket denoms validated at creation -- audited by kind");
-  ("x/layer2/keeper.Keeper.GetBridgeRegistrarHelper", "must", 1%nat, "decodes bytes (or re-parses an address) that this module stored itself with the matching Marshal; layer2 TeamReserve / basket denoms validated at creation -- audited by kind");
-  ("x/layer2/keeper.Keeper.GetDapp", "must", 1%nat, "decodes bytes (or re-parses an address) that this module stored itself with the matching Marshal; layer2 TeamReserve / basket denoms validated at creation -- audited by kind");
-  ("x/layer2/keeper.Keeper.GetDappOperator", "must", 1%nat, "decodes bytes (or re-parses an address) that this module stored itself with the matching Marshal; layer2 TeamReserve / basket denoms validated at creation -- audited by kind");
-  ("x/layer2/keeper.Keeper.GetDappOperators", "must", 1%nat, "decodes bytes (or re-parses an address) that this module stored itself with the matching Marshal; layer2 TeamReserve / basket denoms validated at creation -- audited by kind");
-  ("x/layer2/keeper.Keeper.GetDappSession", "must", 1%nat, "decodes bytes (or re-parses an address) that this module stored itself with the matching Marshal; layer2 TeamReserve / basket denoms validated at creation -- audited by kind");
-  ("x/layer2/keeper.Keeper.GetUserDappBonds", "must", 1%nat, "decodes bytes (or re-parses an address) that this module stored itself with the matching Marshal; layer2 TeamReserve / basket denoms validated at creation -- audited by kind");
-  ("x/layer2/keeper.Keeper.GetXAMs", "must", 1%nat, "decodes bytes (or re-parses an address) that this module stored itself with the matching Marshal; layer2 TeamReserve / basket denoms validated at creation -- audited by kind");
-  ("x/layer2/keeper.Keeper.IsAllowedAddress", "index", 2%nat, "map lookup or index bounded by the enclosing loop / length check");
-  ("x/layer2/keeper.Keeper.ResetNewSession", "newcoin", 1%nat, "amount is a product/fraction of non-negative stored amounts; denom validated at creation");
-  ("x/layer2/keeper.Keeper.ResetNewSession", "must", 1%nat, "decodes bytes (or re-parses an address) that this module stored itself with the matching Marshal; layer2 TeamReserve / basket denoms validated at creation -- audited by kind");
-  ("x/layer2/keeper.Keeper.ResetNewSession", "panic", 1%nat, "unreachable: guards a store / codec invariant (record written together with its index)");
-  ("x/layer2/keeper.Keeper.ResetNewSession", "index", 1%nat, "map lookup or index bounded by the enclosing loop / length check");
-  ("x/layer2/keeper.Keeper.ResetNewSession", "div", 1%nat, "modulo by the number of verified operators: guarded by the emptiness check before it");
-  ("x/layer2/keeper.Keeper.SetBridgeAccount", "must", 1%nat, "decodes bytes (or re-parses an address) that this module stored itself with the matching Marshal; layer2 TeamReserve / basket denoms validated at creation -- audited by kind");
-  ("x/layer2/keeper.Keeper.SetBridgeRegistrarHelper", "must", 1%nat, "decodes bytes (or re-parses an address) that this module stored itself with the matching Marshal; layer2 TeamReserve / basket denoms validated at creation -- audited by kind");
-  ("x/layer2/keeper.Keeper.SetDapp", "must", 1%nat, "decodes bytes (or re-parses an address) that this module stored itself with the matching Marshal; layer2 TeamReserve / basket denoms validated at creation -- audited by kind");
-  ("x/layer2/keeper.Keeper.SetDappOperator", "must", 1%nat, "decodes bytes (or re-parses an address) that this module stored itself with the matching Marshal; layer2 TeamReserve / basket denoms validated at creation -- audited by kind");
-  ("x/layer2/keeper.Keeper.SetDappSession", "must", 1%nat, "decodes bytes (or re-parses an address) that this module stored itself with the matching Marshal; layer2 TeamReserve / basket denoms validated at creation -- audited by kind");
-  ("x/layer2/keeper.Keeper.SetXAM", "must", 1%nat, "decodes bytes (or re-parses an address) that this module stored itself with the matching Marshal; layer2 TeamReserve / basket denoms validated at creation -- audited by kind");
-  ("x/layer2/keeper.msgServer.MintBurnTx", "must", 1%nat, "decodes bytes (or re-parses an address) that this module stored itself with the matching Marshal; layer2 TeamReserve / basket denoms validated at creation -- audited by kind");
-  ("x/layer2/keeper.msgServer.MintBurnTx", "newcoin", 1%nat, "amount is a product/fraction of non-negative stored amounts; denom validated at creation");
-  ("x/layer2/keeper.msgServer.MintCreateFtTx", "newcoin", 1%nat, "amount is a product/fraction of non-negative stored amounts; denom validated at creation");
-  ("x/layer2/keeper.msgServer.MintCreateFtTx", "must", 1%nat, "decodes bytes (or re-parses an address) that this module stored itself with the matching Marshal; layer2 TeamReserve / basket denoms validated at creation -- audited by kind");
-  ("x/layer2/keeper.msgServer.MintCreateNftTx", "newcoin", 1%nat, "amount is a product/fraction of non-negative stored amounts; denom validated at creation");
-  ("x/layer2/keeper.msgServer.MintCreateNftTx", "must", 1%nat, "decodes bytes (or re-parses an address) that this module stored itself with the matching Marshal; layer2 TeamReserve / basket denoms validated at creation -- audited by kind");
-  ("x/layer2/keeper.msgServer.MintIssueTx", "must", 2%nat, "decodes bytes (or re-parses an address) that this module stored itself with the matching Marshal; layer2 TeamReserve / basket denoms validated at creation -- audited by kind");
-  ("x/layer2/keeper.msgServer.MintIssueTx", "newcoin", 2%nat, "amount is a product/fraction of non-negative stored amounts; denom validated at creation");
-  ("x/layer2/keeper.msgServer.TransferDappTx", "must", 1%nat, "decodes bytes (or re-parses an address) that this module stored itself with the matching Marshal; layer2 TeamReserve / basket denoms validated at creation -- audited by kind");
-  ("x/multistaking/keeper.Keeper.ClaimRewards", "panic", 1%nat, "unreachable: guards a store / codec invariant (record written together with its index)");
-  ("x/multistaking/keeper.Keeper.ClaimRewardsFromModule", "panic", 1%nat, "unreachable: guards a store / codec invariant (record written together with its index)");
-  ("x/multistaking/keeper.Keeper.GetAllStakingPools", "must", 1%nat, "decodes bytes (or re-parses an address) that this module stored itself with the matching Marshal; layer2 TeamReserve / basket denoms validated at creation -- audited by kind");
-  ("x/multistaking/keeper.Keeper.GetCompoundInfoByAddress", "must", 1%nat, "decodes bytes (or re-parses an address) that this module stored itself with the matching Marshal; layer2 TeamReserve / basket denoms validated at creation -- audited by kind");
-  ("x/multistaking/keeper.Keeper.GetDelegatorRewards", "panic", 1%nat, "unreachable: guards a store / codec invariant (record written together with its index)");
-  ("x/multistaking/keeper.Keeper.GetStakingPoolByValidator", "must", 1%nat, "decodes bytes (or re-parses an address) that this module stored itself with the matching Marshal; layer2 TeamReserve / basket denoms validated at creation -- audited by kind");
-  ("x/multistaking/keeper.Keeper.IncreasePoolRewards", "newcoin", 2%nat, "non-negative products");
-  ("x/multistaking/keeper.Keeper.IncreasePoolRewards", "quo", 1%nat, "guarded: shareToken.Amount.IsZero() => continue");
-  ("x/multistaking/keeper.Keeper.IncreasePoolRewards", "sub", 1%nat, "autoCompoundRewards is a sub-multiset of rewards by construction");
-  ("x/multistaking/keeper.Keeper.IncreasePoolRewards", "panic", 2%nat, "autocompound payout from the fee collector: reachable only if credited rewards exceed the collector (C04/C10 over-crediting); dead code on the pinned tree (power = 0)");
-  ("x/multistaking/keeper.Keeper.SetCompoundInfo", "must", 1%nat, "decodes bytes (or re-parses an address) that this module stored itself with the matching Marshal; layer2 TeamReserve / basket denoms validated at creation -- audited by kind");
-  ("x/multistaking/keeper.Keeper.SetStakingPool", "must", 1%nat, "decodes bytes (or re-parses an address) that this module stored itself with the matching Marshal; layer2 TeamReserve / basket denoms validated at creation -- audited by kind");
-  ("x/multistaking/keeper.Keeper.SlashStakingPool", "newcoin", 2%nat, "non-negative fractions");
-  ("x/multistaking/keeper.Keeper.SlashStakingPool", "sub", 3%nat, "fractions of the pool totals (slash in [0,1])");
-  ("x/multistaking/keeper.Keeper.SlashStakingPool", "panic", 3%nat, "burn / transfer of amounts computed as fractions (slash <= 1 after the MaxSlashingPercentage cap) of module-held stake: C10");
-  ("x/recovery/keeper.Keeper.ClaimRewards", "panic", 1%nat, "unreachable: guards a store / codec invariant (record written together with its index)");
-  ("x/recovery/keeper.Keeper.GetRRTokenHolderRewards", "panic", 1%nat, "unreachable: guards a store / codec invariant (record written together with its index)");
-  ("x/recovery/keeper.Keeper.GetRecoveryToken", "must", 1%nat, "decodes bytes (or re-parses an address) that this module stored itself with the matching Marshal; layer2 TeamReserve / basket denoms validated at creation -- audited by kind");
-  ("x/recovery/keeper.Keeper.IncreaseRecoveryTokenUnderlying", "sub", 1%nat, "sdk.Int / time subtraction or Coins.Sub guarded by an error-returning balance check before it");
-  ("x/slashing.ApplyResetWholeValidatorRankProposalHandler.Apply", "assert", 1%nat, "proposal content assertion inside its own handler: the router dispatches on ProposalType() of the same content, so the dynamic type matches");
-  ("x/slashing.ApplySlashValidatorProposalHandler.Apply", "assert", 1%nat, "proposal content assertion inside its own handler: the router dispatches on ProposalType() of the same content, so the dynamic type matches");
-  ("x/slashing/keeper.Keeper.GetValidatorSigningInfo", "must", 1%nat, "decodes bytes (or re-parses an address) that this module stored itself with the matching Marshal; layer2 TeamReserve / basket denoms validated at creation -- audited by kind");
-  ("x/slashing/keeper.Keeper.HandleValidatorSignature", "panic", 3%nat, "unreachable for votes of validators CometBFT knows through this app's updates (pubkey relation + signing info written on join); exercised by every block of the harness");
-  ("x/slashing/keeper.Keeper.IterateValidatorSigningInfos", "must", 1%nat, "decodes bytes (or re-parses an address) that this module stored itself with the matching Marshal; layer2 TeamReserve / basket denoms validated at creation -- audited by kind");
-  ("x/slashing/keeper.Keeper.IterateValidatorSigningInfos", "panic", 1%nat, "unreachable: guards a store / codec invariant (record written together with its index)");
-  ("x/slashing/keeper.Keeper.Jail", "assert", 1%nat, "suspected reachable (DESIGN section 6 #16: recovery rotation rewrites a slash proposal's content with the message): not reproduced here");
-  ("x/slashing/keeper.Keeper.JailUntil", "panic", 1%nat, "unreachable: guards a store / codec invariant (record written together with its index)");
-  ("x/slashing/keeper.Keeper.SetValidatorSigningInfo", "must", 1%nat, "decodes bytes (or re-parses an address) that this module stored itself with the matching Marshal; layer2 TeamReserve / basket denoms validated at creation -- audited by kind");
-  ("x/spending.ApplySpendingPoolDistributionProposalHandler.AllowedAddresses", "assert", 1%nat, "proposal content assertion inside its own handler: the router dispatches on ProposalType() of the same content, so the dynamic type matches");
-  ("x/spending.ApplySpendingPoolDistributionProposalHandler.Apply", "assert", 1%nat, "proposal content assertion inside its own handler: the router dispatches on ProposalType() of the same content, so the dynamic type matches");
-  ("x/spending.ApplySpendingPoolDistributionProposalHandler.Apply", "index", 2%nat, "map lookups; the nil pool dereference on a missing pool is state-independent in practice (pools are never deleted) and fails the dry run");
-  ("x/spending.ApplySpendingPoolDistributionProposalHandler.IsAllowedAddress", "assert", 1%nat, "proposal content assertion inside its own handler: the router dispatches on ProposalType() of the same content, so the dynamic type matches");
-  ("x/spending.ApplySpendingPoolDistributionProposalHandler.Quorum", "assert", 1%nat, "proposal content assertion inside its own handler: the router dispatches on ProposalType() of the same content, so the dynamic type matches");
-  ("x/spending.ApplySpendingPoolDistributionProposalHandler.VoteEnactment", "assert", 1%nat, "proposal content assertion inside its own handler: the router dispatches on ProposalType() of the same content, so the dynamic type matches");
-  ("x/spending.ApplySpendingPoolDistributionProposalHandler.VotePeriod", "assert", 1%nat, "proposal content assertion inside its own handler: the router dispatches on ProposalType() of the same content, so the dynamic type matches");
-  ("x/spending.ApplySpendingPoolWithdrawProposalHandler.AllowedAddresses", "assert", 1%nat, "proposal content assertion inside its own handler: the router dispatches on ProposalType() of the same content, so the dynamic type matches");
-  ("x/spending.ApplySpendingPoolWithdrawProposalHandler.Apply", "assert", 1%nat, "proposal content assertion inside its own handler: the router dispatches on ProposalType() of the same content, so the dynamic type matches");
-  ("x/spending.ApplySpendingPoolWithdrawProposalHandler.IsAllowedAddress", "assert", 1%nat, "proposal content assertion inside its own handler: the router dispatches on ProposalType() of the same content, so the dynamic type matches");
-  ("x/spending.ApplySpendingPoolWithdrawProposalHandler.Quorum", "assert", 1%nat, "proposal content assertion inside its own handler: the router dispatches on ProposalType() of the same content, so the dynamic type matches");
-  ("x/spending.ApplySpendingPoolWithdrawProposalHandler.VoteEnactment", "assert", 1%nat, "proposal content assertion inside its own handler: the router dispatches on ProposalType() of the same content, so the dynamic type matches");
-  ("x/spending.ApplySpendingPoolWithdrawProposalHandler.VotePeriod", "assert", 1%nat, "proposal content assertion inside its own handler: the router dispatches on ProposalType() of the same content, so the dynamic type matches");
-  ("x/spending.ApplyUpdateSpendingPoolProposalHandler.AllowedAddresses", "assert", 1%nat, "proposal content assertion inside its own handler: the router dispatches on ProposalType() of the same content, so the dynamic type matches");
-  ("x/spending.ApplyUpdateSpendingPoolProposalHandler.Apply", "assert", 1%nat, "proposal content assertion inside its own handler: the router dispatches on ProposalType() of the same content, so the dynamic type matches");
-  ("x/spending.ApplyUpdateSpendingPoolProposalHandler.IsAllowedAddress", "assert", 1%nat, "proposal content assertion inside its own handler: the router dispatches on ProposalType() of the same content, so the dynamic type matches");
-  ("x/spending.ApplyUpdateSpendingPoolProposalHandler.Quorum", "assert", 1%nat, "proposal content assertion inside its own handler: the router dispatches on ProposalType() of the same content, so the dynamic type matches");
-  ("x/spending.ApplyUpdateSpendingPoolProposalHandler.VoteEnactment", "assert", 1%nat, "proposal content assertion inside its own handler: the router dispatches on ProposalType() of the same content, so the dynamic type matches");
-  ("x/spending.ApplyUpdateSpendingPoolProposalHandler.VotePeriod", "assert", 1%nat, "proposal content assertion inside its own handler: the router dispatches on ProposalType() of the same content, so the dynamic type matches");
-  ("x/spending/keeper.Keeper.AllowedAddresses", "index", 4%nat, "map lookup or index bounded by the enclosing loop / length check");
-  ("x/spending/keeper.Keeper.EndBlocker", "must", 1%nat, "decodes bytes (or re-parses an address) that this module stored itself with the matching Marshal; layer2 TeamReserve / basket denoms validated at creation -- audited by kind");
-  ("x/spending/keeper.Keeper.GetAllSpendingPools", "must", 1%nat, "decodes bytes (or re-parses an address) that this module stored itself with the matching Marshal; layer2 TeamReserve / basket denoms validated at creation -- audited by kind");
-  ("x/spending/keeper.Keeper.GetBeneficiaryWeight", "index", 2%nat, "map lookup or index bounded by the enclosing loop / length check");
-  ("x/spending/keeper.Keeper.GetClaimInfo", "must", 1%nat, "decodes bytes (or re-parses an address) that this module stored itself with the matching Marshal; layer2 TeamReserve / basket denoms validated at creation -- audited by kind");
-  ("x/spending/keeper.Keeper.GetPoolClaimInfos", "must", 1%nat, "decodes bytes (or re-parses an address) that this module stored itself with the matching Marshal; layer2 TeamReserve / basket denoms validated at creation -- audited by kind");
-  ("x/spending/keeper.Keeper.GetSpendingPool", "must", 1%nat, "decodes bytes (or re-parses an address) that this module stored itself with the matching Marshal; layer2 TeamReserve / basket denoms validated at creation -- audited by kind");
-  ("x/spending/keeper.Keeper.IsAllowedAddress", "index", 2%nat, "map lookup or index bounded by the enclosing loop / length check");
-  ("x/spending/keeper.Keeper.IsAllowedBeneficiary", "index", 2%nat, "map lookup or index bounded by the enclosing loop / length check");
-  ("x/spending/keeper.Keeper.SetClaimInfo", "must", 1%nat, "decodes bytes (or re-parses an address) that this module stored itself with the matching Marshal; layer2 TeamReserve / basket denoms validated at creation -- audited by kind");
-  ("x/spending/keeper.Keeper.SetSpendingPool", "must", 1%nat, "decodes bytes (or re-parses an address) that this module stored itself with the matching Marshal; layer2 TeamReserve / basket denoms validated at creation -- audited by kind");
-  ("x/spending/types.ValidateSpendingPoolName", "must", 1%nat, "decodes bytes (or re-parses an address) that this module stored itself with the matching Marshal; layer2 TeamReserve / basket denoms validated at creation -- audited by kind");
-  ("x/staking.ApplyUnjailValidatorProposalHandler.Apply", "assert", 1%nat, "proposal content assertion inside its own handler: the router dispatches on ProposalType() of the same content, so the dynamic type matches");
-  ("x/staking/keeper.Keeper.AddValidator", "must", 1%nat, "decodes bytes (or re-parses an address) that this module stored itself with the matching Marshal; layer2 TeamReserve / basket denoms validated at creation -- audited by kind");
-  ("x/staking/keeper.Keeper.GetPendingValidatorSet", "must", 1%nat, "decodes bytes (or re-parses an address) that this module stored itself with the matching Marshal; layer2 TeamReserve / basket denoms validated at creation -- audited by kind");
-  ("x/staking/keeper.Keeper.GetValidatorJailInfo", "must", 1%nat, "decodes bytes (or re-parses an address) that this module stored itself with the matching Marshal; layer2 TeamReserve / basket denoms validated at creation -- audited by kind");
-  ("x/staking/keeper.Keeper.GetValidatorSet", "must", 1%nat, "decodes bytes (or re-parses an address) that this module stored itself with the matching Marshal; layer2 TeamReserve / basket denoms validated at creation -- audited by kind");
-  ("x/staking/keeper.Keeper.Inactivate", "sub", 1%nat, "sdk.Int / time subtraction or Coins.Sub guarded by an error-returning balance check before it");
-  ("x/staking/keeper.Keeper.PauseProposalNotApprovedValidators", "index", 3%nat, "map lookup or index bounded by the enclosing loop / length check");
-  ("x/staking/keeper.Keeper.getValidatorByKey", "must", 1%nat, "decodes bytes (or re-parses an address) that this module stored itself with the matching Marshal; layer2 TeamReserve / basket denoms validated at creation -- audited by kind");
-  ("x/staking/keeper.Keeper.setJailValidatorInfo", "must", 1%nat, "decodes bytes (or re-parses an address) that this module stored itself with the matching Marshal; layer2 TeamReserve / basket denoms validated at creation -- audited by kind");
-  ("x/tokens.ApplyUpsertTokenInfosProposalHandler.Apply", "assert", 1%nat, "proposal content assertion inside its own handler: the router dispatches on ProposalType() of the same content, so the dynamic type matches");
-  ("x/tokens.ApplyWhiteBlackChangeProposalHandler.Apply", "assert", 1%nat, "proposal content assertion inside its own handler: the router dispatches on ProposalType() of the same content, so the dynamic type matches");
-  ("x/tokens/keeper.Keeper.BurnCoins", "sub", 1%nat, "sdk.Int / time subtraction or Coins.Sub guarded by an error-returning balance check before it");
-  ("x/tokens/keeper.Keeper.GetAllTokenInfos", "must", 1%nat, "decodes bytes (or re-parses an address) that this module stored itself with the matching Marshal; layer2 TeamReserve / basket denoms validated at creation -- audited by kind");
-  ("x/tokens/keeper.Keeper.GetTokenBlackWhites", "must", 1%nat, "decodes bytes (or re-parses an address) that this module stored itself with the matching Marshal; layer2 TeamReserve / basket denoms validated at creation -- audited by kind");
-  ("x/tokens/keeper.Keeper.GetTokenInfo", "must", 1%nat, "decodes bytes (or re-parses an address) that this module stored itself with the matching Marshal; layer2 TeamReserve / basket denoms validated at creation -- audited by kind");
-  ("x/tokens/keeper.Keeper.SetTokenBlackWhites", "must", 1%nat, "decodes bytes (or re-parses an address) that this module stored itself with the matching Marshal; layer2 TeamReserve / basket denoms validated at creation -- audited by kind");
-  ("x/tokens/keeper.Keeper.UpsertTokenInfo", "must", 1%nat, "decodes bytes (or re-parses an address) that this module stored itself with the matching Marshal; layer2 TeamReserve / basket denoms validated at creation -- audited by kind");
-  ("x/tokens/keeper.removeTokens", "index", 2%nat, "map lookup or index bounded by the enclosing loop / length check");
-  ("x/ubi.ApplyRemoveUBIProposalHandler.Apply", "assert", 1%nat, "proposal content assertion inside its own handler: the router dispatches on ProposalType() of the same content, so the dynamic type matches");
-  ("x/ubi.ApplyUpsertUBIProposalHandler.Apply", "assert", 1%nat, "proposal content assertion inside its own handler: the router dispatches on ProposalType() of the same content, so the dynamic type matches");
-  ("x/ubi/keeper.Keeper.GetUBIRecordByName", "must", 1%nat, "decodes bytes (or re-parses an address) that this module stored itself with the matching Marshal; layer2 TeamReserve / basket denoms validated at creation -- audited by kind");
-  ("x/ubi/keeper.Keeper.ProcessUBIRecord", "sub", 1%nat, "sdk.Int arithmetic: no panic");
-  ("x/ubi/keeper.Keeper.SetUBIRecord", "must", 1%nat, "decodes bytes (or re-parses an address) that this module stored itself with the matching Marshal; layer2 TeamReserve / basket denoms validated at creation -- audited by kind");
-  ("x/upgrade.ApplySoftwareUpgradeProposalHandler.Apply", "assert", 1%nat, "proposal content assertion inside its own handler: the router dispatches on ProposalType() of the same content, so the dynamic type matches");
-  ("x/upgrade/keeper.Keeper.ApplyUpgradePlan", "index", 1%nat, "map lookup or index bounded by the enclosing loop / length check");
-  ("x/upgrade/keeper.Keeper.SaveCurrentPlan", "panic", 1%nat, "unreachable: guards a store / codec invariant (record written together with its index)");
-  ("x/upgrade/keeper.Keeper.setNextPlan", "panic", 1%nat, "unreachable: guards a store / codec invariant (record written together with its index)")
+Definition audit_table : list (string * string * nat * string * list string) := [
+  ("x/basket.ApplyBasketWithdrawSurplusProposalHandler.Apply", "assert", 1%nat, "proposal content assertion inside its own handler: the router dispatches on ProposalType() of the same content, so the dynamic type matches", []);
+  ("x/basket.ApplyCreateBasketProposalHandler.Apply", "assert", 1%nat, "proposal content assertion inside its own handler: the router dispatches on ProposalType() of the same content, so the dynamic type matches", []);
+  ("x/basket.ApplyEditBasketProposalHandler.Apply", "assert", 1%nat, "proposal content assertion inside its own handler: the router dispatches on ProposalType() of the same content, so the dynamic type matches", []);
+  ("x/basket/keeper.Keeper.AfterSlashStakingPool", "sub", 1%nat, "sdk.Int / time subtraction or Coins.Sub guarded by an error-returning balance check before it", ["8376b1e3fbd41765"]);
+  ("x/basket/keeper.Keeper.CreateBasket", "index", 2%nat, "map lookup or index bounded by the enclosing loop / length check", ["b24b0406144f9784"]);
+  ("x/basket/keeper.Keeper.EditBasket", "index", 6%nat, "map lookup or index bounded by the enclosing loop / length check", ["847a92afc23028ca"]);
+  ("x/basket/keeper.Keeper.GetAllBaskets", "must", 1%nat, "decodes bytes (or re-parses an address) that this module stored itself with the matching Marshal; layer2 TeamReserve / basket denoms validated at creation -- audited by kind", []);
+  ("x/basket/keeper.Keeper.GetBasketById", "must", 1%nat, "decodes bytes (or re-parses an address) that this module stored itself with the matching Marshal; layer2 TeamReserve / basket denoms validated at creation -- audited by kind", []);
+  ("x/basket/keeper.Keeper.SetBasket", "must", 1%nat, "decodes bytes (or re-parses an address) that this module stored itself with the matching Marshal; layer2 TeamReserve / basket denoms validated at creation -- audited by kind", []);
+  ("x/basket/types.Basket.RatesAndIndexes", "index", 2%nat, "map lookup or index bounded by the enclosing loop / length check", ["a6df3f44802b9f4d"]);
+  ("x/collectives.ApplyCollectiveRemoveProposalHandler.AllowedAddresses", "assert", 1%nat, "proposal content assertion inside its own handler: the router dispatches on ProposalType() of the same content, so the dynamic type matches", []);
+  ("x/collectives.ApplyCollectiveRemoveProposalHandler.Apply", "assert", 1%nat, "proposal content assertion inside its own handler: the router dispatches on ProposalType() of the same content, so the dynamic type matches", []);
+  ("x/collectives.ApplyCollectiveRemoveProposalHandler.IsAllowedAddress", "assert", 1%nat, "proposal content assertion inside its own handler: the router dispatches on ProposalType() of the same content, so the dynamic type matches", []);
+  ("x/collectives.ApplyCollectiveRemoveProposalHandler.Quorum", "assert", 1%nat, "proposal content assertion inside its own handler: the router dispatches on ProposalType() of the same content, so the dynamic type matches", []);
+  ("x/collectives.ApplyCollectiveRemoveProposalHandler.VoteEnactment", "assert", 1%nat, "proposal content assertion inside its own handler: the router dispatches on ProposalType() of the same content, so the dynamic type matches", []);
+  ("x/collectives.ApplyCollectiveRemoveProposalHandler.VotePeriod", "assert", 1%nat, "proposal content assertion inside its own handler: the router dispatches on ProposalType() of the same content, so the dynamic type matches", []);
+  ("x/collectives.ApplyCollectiveSendDonationProposalHandler.AllowedAddresses", "assert", 1%nat, "proposal content assertion inside its own handler: the router dispatches on ProposalType() of the same content, so the dynamic type matches", []);
+  ("x/collectives.ApplyCollectiveSendDonationProposalHandler.Apply", "assert", 1%nat, "proposal content assertion inside its own handler: the router dispatches on ProposalType() of the same content, so the dynamic type matches", []);
+  ("x/collectives.ApplyCollectiveSendDonationProposalHandler.IsAllowedAddress", "assert", 1%nat, "proposal content assertion inside its own handler: the router dispatches on ProposalType() of the same content, so the dynamic type matches", []);
+  ("x/collectives.ApplyCollectiveSendDonationProposalHandler.Quorum", "assert", 1%nat, "proposal content assertion inside its own handler: the router dispatches on ProposalType() of the same content, so the dynamic type matches", []);
+  ("x/collectives.ApplyCollectiveSendDonationProposalHandler.VoteEnactment", "assert", 1%nat, "proposal content assertion inside its own handler: the router dispatches on ProposalType() of the same content, so the dynamic type matches", []);
+  ("x/collectives.ApplyCollectiveSendDonationProposalHandler.VotePeriod", "assert", 1%nat, "proposal content assertion inside its own handler: the router dispatches on ProposalType() of the same content, so the dynamic type matches", []);
+  ("x/collectives.ApplyCollectiveUpdateProposalHandler.AllowedAddresses", "assert", 1%nat, "proposal content assertion inside its own handler: the router dispatches on ProposalType() of the same content, so the dynamic type matches", []);
+  ("x/collectives.ApplyCollectiveUpdateProposalHandler.Apply", "assert", 1%nat, "proposal content assertion inside its own handler: the router dispatches on ProposalType() of the same content, so the dynamic type matches", []);
+  ("x/collectives.ApplyCollectiveUpdateProposalHandler.IsAllowedAddress", "assert", 1%nat, "proposal content assertion inside its own handler: the router dispatches on ProposalType() of the same content, so the dynamic type matches", []);
+  ("x/collectives.ApplyCollectiveUpdateProposalHandler.Quorum", "assert", 1%nat, "proposal content assertion inside its own handler: the router dispatches on ProposalType() of the same content, so the dynamic type matches", []);
+  ("x/collectives.ApplyCollectiveUpdateProposalHandler.VoteEnactment", "assert", 1%nat, "proposal content assertion inside its own handler: the router dispatches on ProposalType() of the same content, so the dynamic type matches", []);
+  ("x/collectives.ApplyCollectiveUpdateProposalHandler.VotePeriod", "assert", 1%nat, "proposal content assertion inside its own handler: the router dispatches on ProposalType() of the same content, so the dynamic type matches", []);
+  ("x/collectives/keeper.Keeper.AllowedAddresses", "index", 4%nat, "map lookup or index bounded by the enclosing loop / length check", ["0b9ec4d125f4c03f"]);
+  ("x/collectives/keeper.Keeper.GetAllCollectives", "must", 1%nat, "decodes bytes (or re-parses an address) that this module stored itself with the matching Marshal; layer2 TeamReserve / basket denoms validated at creation -- audited by kind", []);
+  ("x/collectives/keeper.Keeper.GetCollective", "must", 1%nat, "decodes bytes (or re-parses an address) that this module stored itself with the matching Marshal; layer2 TeamReserve / basket denoms validated at creation -- audited by kind", []);
+  ("x/collectives/keeper.Keeper.GetCollectiveContributer", "must", 1%nat, "decodes bytes (or re-parses an address) that this module stored itself with the matching Marshal; layer2 TeamReserve / basket denoms validated at creation -- audited by kind", []);
+  ("x/collectives/keeper.Keeper.GetCollectiveContributers", "must", 1%nat, "decodes bytes (or re-parses an address) that this module stored itself with the matching Marshal; layer2 TeamReserve / basket denoms validated at creation -- audited by kind", []);
+  ("x/collectives/keeper.Keeper.IsAllowedAddress", "index", 2%nat, "map lookup or index bounded by the enclosing loop / length check", ["e9b62f7e6811bcd1"]);
+  ("x/collectives/keeper.Keeper.SendDonation", "sub", 1%nat, "sdk.Int / time subtraction or Coins.Sub guarded by an error-returning balance check before it", ["9c668a1e14930919"]);
+  ("x/collectives/keeper.Keeper.SetCollective", "must", 1%nat, "decodes bytes (or re-parses an address) that this module stored itself with the matching Marshal; layer2 TeamReserve / basket denoms validated at creation -- audited by kind", []);
+  ("x/collectives/keeper.Keeper.WithdrawCollective", "must", 1%nat, "decodes bytes (or re-parses an address) that this module stored itself with the matching Marshal; layer2 TeamReserve / basket denoms validated at creation -- audited by kind", []);
+  ("x/collectives/keeper.Keeper.WithdrawCollective", "sub", 3%nat, "sdk.Int / time subtraction or Coins.Sub guarded by an error-returning balance check before it", ["b96fa395ac90967b"]);
+  ("x/collectives/keeper.calcPortion", "newcoin", 1%nat, "amount is a product/fraction of non-negative stored amounts; denom validated at creation", ["ad8967f7d6583c04"]);
+  ("x/distributor/keeper.Keeper.AllocateTokens", "sub", 4%nat, "guarded by IsAllGTE / sdk.Int.Sub does not panic", ["c0e9761d3225cd13"]);
+  ("x/distributor/keeper.Keeper.AllocateTokens", "newcoin", 5%nat, "amounts are products of non-negative values and a commission in [1%,50%] (MsgUpsertStakingPool.ValidateBasic); dead code on the pinned tree (votes are wiped in EndBlocker, C10 finding, so power = 0)", ["c0e9761d3225cd13"]);
+  ("x/distributor/keeper.Keeper.AllocateTokens", "panic", 2%nat, "unreachable: minting to the mint module / transfer of the amount just minted", ["c0e9761d3225cd13"]);
+  ("x/distributor/keeper.Keeper.BeginBlocker", "panic", 1%nat, "unreachable: ConsAddr strings written by SetValidatorVote itself", ["8b226f91bd9fc38c"]);
+  ("x/distributor/keeper.Keeper.GetFeesTreasury", "panic", 1%nat, "unreachable: parses the string written by SetFeesTreasury", ["0172156421030cf3"]);
+  ("x/distributor/keeper.Keeper.GetPeriodicSnapshot", "must", 1%nat, "decodes bytes (or re-parses an address) that this module stored itself with the matching Marshal; layer2 TeamReserve / basket denoms validated at creation -- audited by kind", []);
+  ("x/distributor/keeper.Keeper.GetPreviousProposerConsAddr", "panic", 1%nat, "unreachable after height 1 (set in every BeginBlock); an import at initial height > 1 without the key: C12", ["ed1655397e46c3fe"]);
+  ("x/distributor/keeper.Keeper.GetYearStartSnapshot", "must", 1%nat, "decodes bytes (or re-parses an address) that this module stored itself with the matching Marshal; layer2 TeamReserve / basket denoms validated at creation -- audited by kind", []);
+  ("x/distributor/keeper.Keeper.InflationPossible", "div", 1%nat, "literal divisor arithmetic on constants", ["a3541ac22d30b54c"]);
+  ("x/distributor/keeper.Keeper.InflationPossible", "sub", 1%nat, "sdk.Int/Dec Sub: no panic", ["a3541ac22d30b54c"]);
+  ("x/distributor/keeper.Keeper.InflationPossible", "quo", 1%nat, "guarded by the zero-supply check above it", ["a3541ac22d30b54c"]);
+  ("x/distributor/keeper.Keeper.SetPeriodicSnapshot", "must", 1%nat, "decodes bytes (or re-parses an address) that this module stored itself with the matching Marshal; layer2 TeamReserve / basket denoms validated at creation -- audited by kind", []);
+  ("x/distributor/keeper.Keeper.SetYearStartSnapshot", "must", 1%nat, "decodes bytes (or re-parses an address) that this module stored itself with the matching Marshal; layer2 TeamReserve / basket denoms validated at creation -- audited by kind", []);
+  ("x/evidence.BeginBlocker", "assert", 1%nat, "proposal content assertion inside its own handler: the router dispatches on ProposalType() of the same content, so the dynamic type matches", []);
+  ("x/evidence/keeper.Keeper.GetEvidence", "must", 1%nat, "decodes bytes (or re-parses an address) that this module stored itself with the matching Marshal; layer2 TeamReserve / basket denoms validated at creation -- audited by kind", []);
+  ("x/evidence/keeper.Keeper.HandleEquivocationEvidence", "sub", 1%nat, "time.Sub: no panic", ["c34d6b2e85a9d21f"]);
+  ("x/evidence/keeper.Keeper.HandleEquivocationEvidence", "panic", 1%nat, "unreachable: signing info is created when the validator joins (AfterValidatorJoined hook)", ["c34d6b2e85a9d21f"]);
+  ("x/evidence/keeper.Keeper.MustMarshalEvidence", "panic", 1%nat, "unreachable: guards a store / codec invariant (record written together with its index)", ["291d07486925668f"]);
+  ("x/evidence/keeper.Keeper.SetEvidence", "must", 1%nat, "decodes bytes (or re-parses an address) that this module stored itself with the matching Marshal; layer2 TeamReserve / basket denoms validated at creation -- audited by kind", []);
+  ("x/evidence/types.Equivocation.Hash", "panic", 1%nat, "unreachable: guards a store / codec invariant (record written together with its index)", ["73121bb46c56a335"]);
+  ("x/evidence/types.FromABCIEvidence", "panic", 1%nat, "unreachable: guards a store / codec invariant (record written together with its index)", ["0df4eb387dff7d3c"]);
+  ("x/feeprocessing/keeper.Keeper.ProcessExecutionFeeReturn", "newcoin", 1%nat, "amount is a product/fraction of non-negative stored amounts; denom validated at creation", ["7b1d547a1ad857eb"]);
+  ("x/feeprocessing/keeper.Keeper.SendCoinsFromModuleToAccount", "sub", 2%nat, "sdk.Int / time subtraction or Coins.Sub guarded by an error-returning balance check before it", ["5a3352bf0bc8d2b5"]);
+  ("x/feeprocessing/keeper.Keeper.SendCoinsFromModuleToAccount", "newcoin", 1%nat, "amount is a product/fraction of non-negative stored amounts; denom validated at creation", ["5a3352bf0bc8d2b5"]);
+  ("x/gov.ApplyAssignRoleToAccountProposalHandler.Apply", "assert", 1%nat, "proposal content assertion inside its own handler: the router dispatches on ProposalType() of the same content, so the dynamic type matches", []);
+  ("x/gov.ApplyBlacklistAccountPermissionProposalHandler.Apply", "assert", 1%nat, "proposal content assertion inside its own handler: the router dispatches on ProposalType() of the same content, so the dynamic type matches", []);
+  ("x/gov.ApplyBlacklistRolePermissionProposalHandler.Apply", "assert", 1%nat, "proposal content assertion inside its own handler: the router dispatches on ProposalType() of the same content, so the dynamic type matches", []);
+  ("x/gov.ApplyJailCouncilorProposalHandler.Apply", "assert", 1%nat, "proposal content assertion inside its own handler: the router dispatches on ProposalType() of the same content, so the dynamic type matches", []);
+  ("x/gov.ApplyRemoveBlacklistedAccountPermissionProposalHandler.Apply", "assert", 1%nat, "proposal content assertion inside its own handler: the router dispatches on ProposalType() of the same content, so the dynamic type matches", []);
+  ("x/gov.ApplyRemoveBlacklistedRolePermissionProposalHandler.Apply", "assert", 1%nat, "proposal content assertion inside its own handler: the router dispatches on ProposalType() of the same content, so the dynamic type matches", []);
+  ("x/gov.ApplyRemoveRoleProposalHandler.Apply", "assert", 1%nat, "proposal content assertion inside its own handler: the router dispatches on ProposalType() of the same content, so the dynamic type matches", []);
+  ("x/gov.ApplyRemoveWhitelistedAccountPermissionProposalHandler.Apply", "assert", 1%nat, "proposal content assertion inside its own handler: the router dispatches on ProposalType() of the same content, so the dynamic type matches", []);
+  ("x/gov.ApplyRemoveWhitelistedRolePermissionProposalHandler.Apply", "assert", 1%nat, "proposal content assertion inside its own handler: the router dispatches on ProposalType() of the same content, so the dynamic type matches", []);
+  ("x/gov.ApplyResetWholeCouncilorRankProposalHandler.Apply", "assert", 1%nat, "proposal content assertion inside its own handler: the router dispatches on ProposalType() of the same content, so the dynamic type matches", []);
+  ("x/gov.ApplySetExecutionFeesHandler.Apply", "assert", 1%nat, "proposal content assertion inside its own handler: the router dispatches on ProposalType() of the same content, so the dynamic type matches", []);
+  ("x/gov.ApplySetNetworkPropertyProposalHandler.Apply", "assert", 1%nat, "proposal content assertion inside its own handler: the router dispatches on ProposalType() of the same content, so the dynamic type matches", []);
+  ("x/gov.ApplySetPoorNetworkMessagesProposalHandler.Apply", "assert", 1%nat, "proposal content assertion inside its own handler: the router dispatches on ProposalType() of the same content, so the dynamic type matches", []);
+  ("x/gov.ApplyUnassignRoleFromAccountProposalHandler.Apply", "assert", 1%nat, "proposal content assertion inside its own handler: the router dispatches on ProposalType() of the same content, so the dynamic type matches", []);
+  ("x/gov.ApplyUpsertDataRegistryProposalHandler.Apply", "assert", 1%nat, "proposal content assertion inside its own handler: the router dispatches on ProposalType() of the same content, so the dynamic type matches", []);
+  ("x/gov.ApplyWhitelistAccountPermissionProposalHandler.Apply", "assert", 1%nat, "proposal content assertion inside its own handler: the router dispatches on ProposalType() of the same content, so the dynamic type matches", []);
+  ("x/gov.ApplyWhitelistRolePermissionProposalHandler.Apply", "assert", 1%nat, "proposal content assertion inside its own handler: the router dispatches on ProposalType() of the same content, so the dynamic type matches", []);
+  ("x/gov.CreateRoleProposalHandler.Apply", "assert", 1%nat, "proposal content assertion inside its own handler: the router dispatches on ProposalType() of the same content, so the dynamic type matches", []);
+  ("x/gov.SetProposalDurationsProposalHandler.Apply", "assert", 1%nat, "proposal content assertion inside its own handler: the router dispatches on ProposalType() of the same content, so the dynamic type matches", []);
+  ("x/gov.SetProposalDurationsProposalHandler.Apply", "index", 1%nat, "map lookup or index bounded by the enclosing loop / length check", ["0e6b459a73be2ba8"]);
+  ("x/gov.processEnactmentProposal", "panic", 1%nat, "unreachable: enactment queue entries are written with the proposal; proposals are never deleted", ["33eaf5d42df66f8d"]);
+  ("x/gov.processPoll", "index", 1%nat, "map lookup or index bounded by the enclosing loop / length check", ["4461099a7de2d663"; "6a3c84943a00324c"]);
+  ("x/gov.processProposal", "index", 2%nat, "map lookup or index bounded by the enclosing loop / length check", ["4d5bc7af1c733b90"; "8627ca39f0fbd1bc"]);
+  ("x/gov/keeper.CheckIfAllowedPermission", "index", 4%nat, "map lookup or index bounded by the enclosing loop / length check", ["452c333de081d1b3"]);
+  ("x/gov/keeper.Keeper.BlacklistRolePermission", "must", 1%nat, "decodes bytes (or re-parses an address) that this module stored itself with the matching Marshal; layer2 TeamReserve / basket denoms validated at creation -- audited by kind", []);
+  ("x/gov/keeper.Keeper.EnsureOldUniqueKeysNotRemoved", "index", 2%nat, "map lookup or index bounded by the enclosing loop / length check", ["651239798ba4401d"]);
+  ("x/gov/keeper.Keeper.EnsureUniqueKeys", "index", 6%nat, "map lookup or index bounded by the enclosing loop / length check", ["dc3961420029da15"]);
+  ("x/gov/keeper.Keeper.GetAllCouncilors", "must", 1%nat, "decodes bytes (or re-parses an address) that this module stored itself with the matching Marshal; layer2 TeamReserve / basket denoms validated at creation -- audited by kind", []);
+  ("x/gov/keeper.Keeper.GetAllIdentityRecords", "must", 1%nat, "decodes bytes (or re-parses an address) that this module stored itself with the matching Marshal; layer2 TeamReserve / basket denoms validated at creation -- audited by kind", []);
+  ("x/gov/keeper.Keeper.GetAverageVotesSlash", "quo", 1%nat, "guarded: returns zero when there is no Yes vote (totalCount == 0) before dividing by the Yes-vote count; exercised by the gov-vote-patterns histories (every vote pattern, run past the enactment end)", ["b15566c2f50370ff"]);
+  ("x/gov/keeper.Keeper.GetExecutionFee", "must", 1%nat, "decodes bytes (or re-parses an address) that this module stored itself with the matching Marshal; layer2 TeamReserve / basket denoms validated at creation -- audited by kind", []);
+  ("x/gov/keeper.Keeper.GetNetworkActorByAddress", "must", 1%nat, "decodes bytes (or re-parses an address) that this module stored itself with the matching Marshal; layer2 TeamReserve / basket denoms validated at creation -- audited by kind", []);
+  ("x/gov/keeper.Keeper.GetNetworkActorOrFail", "panic", 1%nat, "unreachable: permission/role index entries are written and removed together with the actor record (C07 refinement)", ["3368f8be08283503"]);
+  ("x/gov/keeper.Keeper.GetNetworkActorsByAbsoluteWhitelistPermission", "index", 2%nat, "map lookup or index bounded by the enclosing loop / length check", ["b939a5d0ed92fdf9"]);
+  ("x/gov/keeper.Keeper.GetNetworkProperties", "must", 1%nat, "decodes bytes (or re-parses an address) that this module stored itself with the matching Marshal; layer2 TeamReserve / basket denoms validated at creation -- audited by kind", []);
+  ("x/gov/keeper.Keeper.GetPermissionsForRole", "must", 1%nat, "decodes bytes (or re-parses an address) that this module stored itself with the matching Marshal; layer2 TeamReserve / basket denoms validated at creation -- audited by kind", []);
+  ("x/gov/keeper.Keeper.GetPoll", "must", 1%nat, "decodes bytes (or re-parses an address) that this module stored itself with the matching Marshal; layer2 TeamReserve / basket denoms validated at creation -- audited by kind", []);
+  ("x/gov/keeper.Keeper.GetPollVotes", "must", 1%nat, "decodes bytes (or re-parses an address) that this module stored itself with the matching Marshal; layer2 TeamReserve / basket denoms validated at creation -- audited by kind", []);
+  ("x/gov/keeper.Keeper.GetProposal", "must", 1%nat, "decodes bytes (or re-parses an address) that this module stored itself with the matching Marshal; layer2 TeamReserve / basket denoms validated at creation -- audited by kind", []);
+  ("x/gov/keeper.Keeper.GetProposalVotes", "must", 1%nat, "decodes bytes (or re-parses an address) that this module stored itself with the matching Marshal; layer2 TeamReserve / basket denoms validated at creation -- audited by kind", []);
+  ("x/gov/keeper.Keeper.GetProposals", "must", 1%nat, "decodes bytes (or re-parses an address) that this module stored itself with the matching Marshal; layer2 TeamReserve / basket denoms validated at creation -- audited by kind", []);
+  ("x/gov/keeper.Keeper.GetVotes", "must", 1%nat, "decodes bytes (or re-parses an address) that this module stored itself with the matching Marshal; layer2 TeamReserve / basket denoms validated at creation -- audited by kind", []);
+  ("x/gov/keeper.Keeper.RemoveBlacklistRolePermission", "must", 1%nat, "decodes bytes (or re-parses an address) that this module stored itself with the matching Marshal; layer2 TeamReserve / basket denoms validated at creation -- audited by kind", []);
+  ("x/gov/keeper.Keeper.RemoveWhitelistRolePermission", "must", 1%nat, "decodes bytes (or re-parses an address) that this module stored itself with the matching Marshal; layer2 TeamReserve / basket denoms validated at creation -- audited by kind", []);
+  ("x/gov/keeper.Keeper.SaveCouncilor", "must", 1%nat, "decodes bytes (or re-parses an address) that this module stored itself with the matching Marshal; layer2 TeamReserve / basket denoms validated at creation -- audited by kind", []);
+  ("x/gov/keeper.Keeper.SaveNetworkActor", "must", 1%nat, "decodes bytes (or re-parses an address) that this module stored itself with the matching Marshal; layer2 TeamReserve / basket denoms validated at creation -- audited by kind", []);
+  ("x/gov/keeper.Keeper.SavePoll", "must", 1%nat, "decodes bytes (or re-parses an address) that this module stored itself with the matching Marshal; layer2 TeamReserve / basket denoms validated at creation -- audited by kind", []);
+  ("x/gov/keeper.Keeper.SavePoorNetworkMessages", "must", 1%nat, "decodes bytes (or re-parses an address) that this module stored itself with the matching Marshal; layer2 TeamReserve / basket denoms validated at creation -- audited by kind", []);
+  ("x/gov/keeper.Keeper.SaveProposal", "must", 1%nat, "decodes bytes (or re-parses an address) that this module stored itself with the matching Marshal; layer2 TeamReserve / basket denoms validated at creation -- audited by kind", []);
+  ("x/gov/keeper.Keeper.SetExecutionFee", "must", 1%nat, "decodes bytes (or re-parses an address) that this module stored itself with the matching Marshal; layer2 TeamReserve / basket denoms validated at creation -- audited by kind", []);
+  ("x/gov/keeper.Keeper.SetNetworkProperties", "must", 1%nat, "decodes bytes (or re-parses an address) that this module stored itself with the matching Marshal; layer2 TeamReserve / basket denoms validated at creation -- audited by kind", []);
+  ("x/gov/keeper.Keeper.SetRole", "panic", 1%nat, "unreachable: guards a store / codec invariant (record written together with its index)", ["a13280216693adf8"]);
+  ("x/gov/keeper.Keeper.UpsertDataRegistryEntry", "must", 1%nat, "decodes bytes (or re-parses an address) that this module stored itself with the matching Marshal; layer2 TeamReserve / basket denoms validated at creation -- audited by kind", []);
+  ("x/gov/keeper.Keeper.WhitelistRolePermission", "must", 1%nat, "decodes bytes (or re-parses an address) that this module stored itself with the matching Marshal; layer2 TeamReserve / basket denoms validated at creation -- audited by kind", []);
+  ("x/gov/keeper.Keeper.getCouncilorByKey", "must", 1%nat, "decodes bytes (or re-parses an address) that this module stored itself with the matching Marshal; layer2 TeamReserve / basket denoms validated at creation -- audited by kind", []);
+  ("x/gov/keeper.Keeper.savePermissionsForRole", "must", 1%nat, "decodes bytes (or re-parses an address) that this module stored itself with the matching Marshal; layer2 TeamReserve / basket denoms validated at creation -- audited by kind", []);
+  ("x/gov/keeper.ValidateRoleSidKey", "must", 1%nat, "decodes bytes (or re-parses an address) that this module stored itself with the matching Marshal; layer2 TeamReserve / basket denoms validated at creation -- audited by kind", []);
+  ("x/gov/keeper.getRolePermissions", "index", 1%nat, "map lookup or index bounded by the enclosing loop / length check", ["68bafff8905381e3"]);
+  ("x/gov/types.CalculatePollVotes", "index", 1%nat, "map lookup or index bounded by the enclosing loop / length check", ["f6d35cce8291d236"]);
+  ("x/gov/types.CalculateVotes", "index", 1%nat, "map lookup or index bounded by the enclosing loop / length check", ["b6810ce0ce180988"]);
+  ("x/gov/types.CalculatedPollVotes.ProcessResult", "quo", 1%nat, "guarded: the division by actorsWithVeto is inside if actorsWithVeto != 0; exercised by the gov-poll-patterns histories (incl. a poll for a member-less role)", ["d051ab6c78bd3b61"]);
+  ("x/gov/types.CalculatedPollVotes.ProcessResult", "index", 3%nat, "map lookup or index bounded by the enclosing loop / length check", ["d051ab6c78bd3b61"]);
+  ("x/gov/types.CalculatedPollVotes.ProcessResult", "div", 2%nat, "float32 division: no panic", ["d051ab6c78bd3b61"]);
+  ("x/gov/types.CalculatedVotes.ProcessResult", "div", 3%nat, "float32 division: no panic (C08 covers the result)", ["5bfc893f14a8e264"]);
+  ("x/gov/types.CalculatedVotes.ProcessResult", "index", 5%nat, "map lookup or index bounded by the enclosing loop / length check", ["5bfc893f14a8e264"]);
+  ("x/gov/types.ProposalRouter.AllowedAddressesDynamicProposal", "panic", 1%nat, "unreachable: same content type already routed at submission (state-independent, input_only_panics_filtered)", ["d24018d62fbb62f2"]);
+  ("x/gov/types.ProposalRouter.QuorumDynamicProposal", "panic", 1%nat, "unreachable: same content type already routed at submission (state-independent)", ["f3e82318fb4875cd"]);
+  ("x/layer2.ApplyJoinDappProposalHandler.AllowedAddresses", "assert", 1%nat, "proposal content assertion inside its own handler: the router dispatches on ProposalType() of the same content, so the dynamic type matches", []);
+  ("x/layer2.ApplyJoinDappProposalHandler.Apply", "assert", 1%nat, "proposal content assertion inside its own handler: the router dispatches on ProposalType() of the same content, so the dynamic type matches", []);
+  ("x/layer2.ApplyJoinDappProposalHandler.IsAllowedAddress", "assert", 1%nat, "proposal content assertion inside its own handler: the router dispatches on ProposalType() of the same content, so the dynamic type matches", []);
+  ("x/layer2.ApplyJoinDappProposalHandler.Quorum", "assert", 1%nat, "proposal content assertion inside its own handler: the router dispatches on ProposalType() of the same content, so the dynamic type matches", []);
+  ("x/layer2.ApplyJoinDappProposalHandler.VoteEnactment", "assert", 1%nat, "proposal content assertion inside its own handler: the router dispatches on ProposalType() of the same content, so the dynamic type matches", []);
+  ("x/layer2.ApplyJoinDappProposalHandler.VotePeriod", "assert", 1%nat, "proposal content assertion inside its own handler: the router dispatches on ProposalType() of the same content, so the dynamic type matches", []);
+  ("x/layer2.ApplyUpsertDappProposalHandler.AllowedAddresses", "assert", 1%nat, "proposal content assertion inside its own handler: the router dispatches on ProposalType() of the same content, so the dynamic type matches", []);
+  ("x/layer2.ApplyUpsertDappProposalHandler.Apply", "assert", 1%nat, "proposal content assertion inside its own handler: the router dispatches on ProposalType() of the same content, so the dynamic type matches", []);
+  ("x/layer2.ApplyUpsertDappProposalHandler.IsAllowedAddress", "assert", 1%nat, "proposal content assertion inside its own handler: the router dispatches on ProposalType() of the same content, so the dynamic type matches", []);
+  ("x/layer2.ApplyUpsertDappProposalHandler.Quorum", "assert", 1%nat, "proposal content assertion inside its own handler: the router dispatches on ProposalType() of the same content, so the dynamic type matches", []);
+  ("x/layer2.ApplyUpsertDappProposalHandler.VoteEnactment", "assert", 1%nat, "proposal content assertion inside its own handler: the router dispatches on ProposalType() of the same content, so the dynamic type matches", []);
+  ("x/layer2.ApplyUpsertDappProposalHandler.VotePeriod", "assert", 1%nat, "proposal content assertion inside its own handler: the router dispatches on ProposalType() of the same content, so the dynamic type matches", []);
+  ("x/layer2/keeper.Keeper.AllowedAddresses", "index", 4%nat, "map lookup or index bounded by the enclosing loop / length check", ["eea763ee20a867a0"]);
+  ("x/layer2/keeper.Keeper.EndBlocker", "must", 1%nat, "decodes bytes (or re-parses an address) that this module stored itself with the matching Marshal; layer2 TeamReserve / basket denoms validated at creation -- audited by kind", []);
+  ("x/layer2/keeper.Keeper.EndBlocker", "newcoin", 1%nat, "amount is a product/fraction of non-negative stored amounts; denom validated at creation", ["b8af367205165836"]);
+  ("x/layer2/keeper.Keeper.EndBlocker", "panic", 1%nat, "premint payout of LP tokens minted at bootstrap for exactly this purpose", ["b8af367205165836"]);
+  ("x/layer2/keeper.Keeper.ExecuteDappRemove", "must", 1%nat, "decodes bytes (or re-parses an address) that this module stored itself with the matching Marshal; layer2 TeamReserve / basket denoms validated at creation -- audited by kind", []);
+  ("x/layer2/keeper.Keeper.FinishDappBootstrap", "quo", 1%nat, "guarded: drip == 0 => 1", ["cf64fcd11a9d0b24"]);
+  ("x/layer2/keeper.Keeper.FinishDappBootstrap", "newcoin", 4%nat, "amount is a product/fraction of non-negative stored amounts; denom validated at creation", ["cf64fcd11a9d0b24"]);
+  ("x/layer2/keeper.Keeper.FinishDappBootstrap", "panic", 2%nat, "mint to the layer2 module (minter) / payout of the premint just minted", ["cf64fcd11a9d0b24"]);
+  ("x/layer2/keeper.Keeper.FinishDappBootstrap", "must", 1%nat, "decodes bytes (or re-parses an address) that this module stored itself with the matching Marshal; layer2 TeamReserve / basket denoms validated at creation -- audited by kind", []);
+  ("x/layer2/keeper.Keeper.GetAllDapps", "must", 1%nat, "decodes bytes (or re-parses an address) that this module stored itself with the matching Marshal; layer2 TeamReserve / basket denoms validated at creation -- audited by kind", []);
+  ("x/layer2/keeper.Keeper.GetBridgeAccount", "must", 1%nat, "decodes bytes (or re-parses an address) that this module stored itself with the matching Marshal; layer2 TeamReserve / basket denoms validated at creation -- audited by kind", []);
+  ("x/layer2/keeper.Keeper.GetBridgeRegistrarHelper", "must", 1%nat, "decodes bytes (or re-parses an address) that this module stored itself with the matching Marshal; layer2 TeamReserve / basket denoms validated at creation -- audited by kind", []);
+  ("x/layer2/keeper.Keeper.GetDapp", "must", 1%nat, "decodes bytes (or re-parses an address) that this module stored itself with the matching Marshal; layer2 TeamReserve / basket denoms validated at creation -- audited by kind", []);
+  ("x/layer2/keeper.Keeper.GetDappOperator", "must", 1%nat, "decodes bytes (or re-parses an address) that this module stored itself with the matching Marshal; layer2 TeamReserve / basket denoms validated at creation -- audited by kind", []);
+  ("x/layer2/keeper.Keeper.GetDappOperators", "must", 1%nat, "decodes bytes (or re-parses an address) that this module stored itself with the matching Marshal; layer2 TeamReserve / basket denoms validated at creation -- audited by kind", []);
+  ("x/layer2/keeper.Keeper.GetDappSession", "must", 1%nat, "decodes bytes (or re-parses an address) that this module stored itself with the matching Marshal; layer2 TeamReserve / basket denoms validated at creation -- audited by kind", []);
+  ("x/layer2/keeper.Keeper.GetUserDappBonds", "must", 1%nat, "decodes bytes (or re-parses an address) that this module stored itself with the matching Marshal; layer2 TeamReserve / basket denoms validated at creation -- audited by kind", []);
+  ("x/layer2/keeper.Keeper.GetXAMs", "must", 1%nat, "decodes bytes (or re-parses an address) that this module stored itself with the matching Marshal; layer2 TeamReserve / basket denoms validated at creation -- audited by kind", []);
+  ("x/layer2/keeper.Keeper.IsAllowedAddress", "index", 2%nat, "map lookup or index bounded by the enclosing loop / length check", ["8c863e8c50394ba0"]);
+  ("x/layer2/keeper.Keeper.ResetNewSession", "newcoin", 1%nat, "amount is a product/fraction of non-negative stored amounts; denom validated at creation", ["9a120065aae3fc2a"]);
+  ("x/layer2/keeper.Keeper.ResetNewSession", "must", 1%nat, "decodes bytes (or re-parses an address) that this module stored itself with the matching Marshal; layer2 TeamReserve / basket denoms validated at creation -- audited by kind", []);
+  ("x/layer2/keeper.Keeper.ResetNewSession", "panic", 1%nat, "unreachable: guards a store / codec invariant (record written together with its index)", ["9a120065aae3fc2a"]);
+  ("x/layer2/keeper.Keeper.ResetNewSession", "index", 1%nat, "map lookup or index bounded by the enclosing loop / length check", ["9a120065aae3fc2a"]);
+  ("x/layer2/keeper.Keeper.ResetNewSession", "div", 1%nat, "modulo by the number of verified operators: guarded by the emptiness check before it", ["9a120065aae3fc2a"]);
+  ("x/layer2/keeper.Keeper.SetBridgeAccount", "must", 1%nat, "decodes bytes (or re-parses an address) that this module stored itself with the matching Marshal; layer2 TeamReserve / basket denoms validated at creation -- audited by kind", []);
+  ("x/layer2/keeper.Keeper.SetBridgeRegistrarHelper", "must", 1%nat, "decodes bytes (or re-parses an address) that this module stored itself with the matching Marshal; layer2 TeamReserve / basket denoms validated at creation -- audited by kind", []);
+  ("x/layer2/keeper.Keeper.SetDapp", "must", 1%nat, "decodes bytes (or re-parses an address) that this module stored itself with the matching Marshal; layer2 TeamReserve / basket denoms validated at creation -- audited by kind", []);
+  ("x/layer2/keeper.Keeper.SetDappOperator", "must", 1%nat, "decodes bytes (or re-parses an address) that this module stored itself with the matching Marshal; layer2 TeamReserve / basket denoms validated at creation -- audited by kind", []);
+  ("x/layer2/keeper.Keeper.SetDappSession", "must", 1%nat, "decodes bytes (or re-parses an address) that this module stored itself with the matching Marshal; layer2 TeamReserve / basket denoms validated at creation -- audited by kind", []);
+  ("x/layer2/keeper.Keeper.SetXAM", "must", 1%nat, "decodes bytes (or re-parses an address) that this module stored itself with the matching Marshal; layer2 TeamReserve / basket denoms validated at creation -- audited by kind", []);
+  ("x/layer2/keeper.msgServer.MintBurnTx", "must", 1%nat, "decodes bytes (or re-parses an address) that this module stored itself with the matching Marshal; layer2 TeamReserve / basket denoms validated at creation -- audited by kind", []);
+  ("x/layer2/keeper.msgServer.MintBurnTx", "newcoin", 1%nat, "amount is a product/fraction of non-negative stored amounts; denom validated at creation", ["cabb5ebda97b8924"]);
+  ("x/layer2/keeper.msgServer.MintCreateFtTx", "newcoin", 1%nat, "amount is a product/fraction of non-negative stored amounts; denom validated at creation", ["9aadda9fdbc648ef"]);
+  ("x/layer2/keeper.msgServer.MintCreateFtTx", "must", 1%nat, "decodes bytes (or re-parses an address) that this module stored itself with the matching Marshal; layer2 TeamReserve / basket denoms validated at creation -- audited by kind", []);
+  ("x/layer2/keeper.msgServer.MintCreateNftTx", "newcoin", 1%nat, "amount is a product/fraction of non-negative stored amounts; denom validated at creation", ["ba376a5f0f7d37d0"]);
+  ("x/layer2/keeper.msgServer.MintCreateNftTx", "must", 1%nat, "decodes bytes (or re-parses an address) that this module stored itself with the matching Marshal; layer2 TeamReserve / basket denoms validated at creation -- audited by kind", []);
+  ("x/layer2/keeper.msgServer.MintIssueTx", "must", 2%nat, "decodes bytes (or re-parses an address) that this module stored itself with the matching Marshal; layer2 TeamReserve / basket denoms validated at creation -- audited by kind", []);
+  ("x/layer2/keeper.msgServer.MintIssueTx", "newcoin", 2%nat, "amount is a product/fraction of non-negative stored amounts; denom validated at creation", ["e16bce0b6f7a7382"]);
+  ("x/layer2/keeper.msgServer.TransferDappTx", "must", 1%nat, "decodes bytes (or re-parses an address) that this module stored itself with the matching Marshal; layer2 TeamReserve / basket denoms validated at creation -- audited by kind", []);
+  ("x/multistaking/keeper.Keeper.ClaimRewards", "panic", 1%nat, "unreachable: guards a store / codec invariant (record written together with its index)", ["0cb64d180c28bba9"]);
+  ("x/multistaking/keeper.Keeper.ClaimRewardsFromModule", "panic", 1%nat, "unreachable: guards a store / codec invariant (record written together with its index)", ["4cde2db996dac55d"]);
+  ("x/multistaking/keeper.Keeper.GetAllStakingPools", "must", 1%nat, "decodes bytes (or re-parses an address) that this module stored itself with the matching Marshal; layer2 TeamReserve / basket denoms validated at creation -- audited by kind", []);
+  ("x/multistaking/keeper.Keeper.GetCompoundInfoByAddress", "must", 1%nat, "decodes bytes (or re-parses an address) that this module stored itself with the matching Marshal; layer2 TeamReserve / basket denoms validated at creation -- audited by kind", []);
+  ("x/multistaking/keeper.Keeper.GetDelegatorRewards", "panic", 1%nat, "unreachable: guards a store / codec invariant (record written together with its index)", ["759deeebf729e036"]);
+  ("x/multistaking/keeper.Keeper.GetStakingPoolByValidator", "must", 1%nat, "decodes bytes (or re-parses an address) that this module stored itself with the matching Marshal; layer2 TeamReserve / basket denoms validated at creation -- audited by kind", []);
+  ("x/multistaking/keeper.Keeper.IncreasePoolRewards", "newcoin", 2%nat, "non-negative products", ["d230d63a957c9ea3"]);
+  ("x/multistaking/keeper.Keeper.IncreasePoolRewards", "quo", 1%nat, "guarded: shareToken.Amount.IsZero() => continue", ["d230d63a957c9ea3"]);
+  ("x/multistaking/keeper.Keeper.IncreasePoolRewards", "sub", 1%nat, "autoCompoundRewards is a sub-multiset of rewards by construction", ["d230d63a957c9ea3"]);
+  ("x/multistaking/keeper.Keeper.IncreasePoolRewards", "panic", 2%nat, "autocompound payout from the fee collector: reachable only if credited rewards exceed the collector (C04/C10 over-crediting); dead code on the pinned tree (power = 0)", ["d230d63a957c9ea3"]);
+  ("x/multistaking/keeper.Keeper.SetCompoundInfo", "must", 1%nat, "decodes bytes (or re-parses an address) that this module stored itself with the matching Marshal; layer2 TeamReserve / basket denoms validated at creation -- audited by kind", []);
+  ("x/multistaking/keeper.Keeper.SetStakingPool", "must", 1%nat, "decodes bytes (or re-parses an address) that this module stored itself with the matching Marshal; layer2 TeamReserve / basket denoms validated at creation -- audited by kind", []);
+  ("x/multistaking/keeper.Keeper.SlashStakingPool", "newcoin", 2%nat, "non-negative fractions", ["ddf46ff059e3a6ba"]);
+  ("x/multistaking/keeper.Keeper.SlashStakingPool", "sub", 3%nat, "fractions of the pool totals (slash in [0,1])", ["ddf46ff059e3a6ba"]);
+  ("x/multistaking/keeper.Keeper.SlashStakingPool", "panic", 3%nat, "burn / transfer of amounts computed as fractions (slash <= 1 after the MaxSlashingPercentage cap) of module-held stake: C10", ["ddf46ff059e3a6ba"]);
+  ("x/recovery/keeper.Keeper.ClaimRewards", "panic", 1%nat, "unreachable: guards a store / codec invariant (record written together with its index)", ["481ac89eced8ac7f"]);
+  ("x/recovery/keeper.Keeper.GetRRTokenHolderRewards", "panic", 1%nat, "unreachable: guards a store / codec invariant (record written together with its index)", ["8279fa45ce06c49d"]);
+  ("x/recovery/keeper.Keeper.GetRecoveryToken", "must", 1%nat, "decodes bytes (or re-parses an address) that this module stored itself with the matching Marshal; layer2 TeamReserve / basket denoms validated at creation -- audited by kind", []);
+  ("x/recovery/keeper.Keeper.IncreaseRecoveryTokenUnderlying", "sub", 1%nat, "sdk.Int / time subtraction or Coins.Sub guarded by an error-returning balance check before it", ["5f101af1a595a034"]);
+  ("x/slashing.ApplyResetWholeValidatorRankProposalHandler.Apply", "assert", 1%nat, "proposal content assertion inside its own handler: the router dispatches on ProposalType() of the same content, so the dynamic type matches", []);
+  ("x/slashing.ApplySlashValidatorProposalHandler.Apply", "assert", 1%nat, "proposal content assertion inside its own handler: the router dispatches on ProposalType() of the same content, so the dynamic type matches", []);
+  ("x/slashing/keeper.Keeper.GetValidatorSigningInfo", "must", 1%nat, "decodes bytes (or re-parses an address) that this module stored itself with the matching Marshal; layer2 TeamReserve / basket denoms validated at creation -- audited by kind", []);
+  ("x/slashing/keeper.Keeper.HandleValidatorSignature", "panic", 3%nat, "unreachable for votes of validators CometBFT knows through this app's updates (pubkey relation + signing info written on join); exercised by every block of the harness", ["8135aa2c67190238"]);
+  ("x/slashing/keeper.Keeper.IterateValidatorSigningInfos", "must", 1%nat, "decodes bytes (or re-parses an address) that this module stored itself with the matching Marshal; layer2 TeamReserve / basket denoms validated at creation -- audited by kind", []);
+  ("x/slashing/keeper.Keeper.IterateValidatorSigningInfos", "panic", 1%nat, "unreachable: guards a store / codec invariant (record written together with its index)", ["451aff9c9e07213f"]);
+  ("x/slashing/keeper.Keeper.Jail", "assert", 1%nat, "suspected reachable (DESIGN section 6 #16: recovery rotation rewrites a slash proposal's content with the message): not reproduced here", []);
+  ("x/slashing/keeper.Keeper.JailUntil", "panic", 1%nat, "unreachable: guards a store / codec invariant (record written together with its index)", ["a6981c2b2eadd02f"]);
+  ("x/slashing/keeper.Keeper.SetValidatorSigningInfo", "must", 1%nat, "decodes bytes (or re-parses an address) that this module stored itself with the matching Marshal; layer2 TeamReserve / basket denoms validated at creation -- audited by kind", []);
+  ("x/spending.ApplySpendingPoolDistributionProposalHandler.AllowedAddresses", "assert", 1%nat, "proposal content assertion inside its own handler: the router dispatches on ProposalType() of the same content, so the dynamic type matches", []);
+  ("x/spending.ApplySpendingPoolDistributionProposalHandler.Apply", "assert", 1%nat, "proposal content assertion inside its own handler: the router dispatches on ProposalType() of the same content, so the dynamic type matches", []);
+  ("x/spending.ApplySpendingPoolDistributionProposalHandler.Apply", "index", 2%nat, "map lookups; the nil pool dereference on a missing pool is state-independent in practice (pools are never deleted) and fails the dry run", ["9893d34d54a1b63c"]);
+  ("x/spending.ApplySpendingPoolDistributionProposalHandler.IsAllowedAddress", "assert", 1%nat, "proposal content assertion inside its own handler: the router dispatches on ProposalType() of the same content, so the dynamic type matches", []);
+  ("x/spending.ApplySpendingPoolDistributionProposalHandler.Quorum", "assert", 1%nat, "proposal content assertion inside its own handler: the router dispatches on ProposalType() of the same content, so the dynamic type matches", []);
+  ("x/spending.ApplySpendingPoolDistributionProposalHandler.VoteEnactment", "assert", 1%nat, "proposal content assertion inside its own handler: the router dispatches on ProposalType() of the same content, so the dynamic type matches", []);
+  ("x/spending.ApplySpendingPoolDistributionProposalHandler.VotePeriod", "assert", 1%nat, "proposal content assertion inside its own handler: the router dispatches on ProposalType() of the same content, so the dynamic type matches", []);
+  ("x/spending.ApplySpendingPoolWithdrawProposalHandler.AllowedAddresses", "assert", 1%nat, "proposal content assertion inside its own handler: the router dispatches on ProposalType() of the same content, so the dynamic type matches", []);
+  ("x/spending.ApplySpendingPoolWithdrawProposalHandler.Apply", "assert", 1%nat, "proposal content assertion inside its own handler: the router dispatches on ProposalType() of the same content, so the dynamic type matches", []);
+  ("x/spending.ApplySpendingPoolWithdrawProposalHandler.IsAllowedAddress", "assert", 1%nat, "proposal content assertion inside its own handler: the router dispatches on ProposalType() of the same content, so the dynamic type matches", []);
+  ("x/spending.ApplySpendingPoolWithdrawProposalHandler.Quorum", "assert", 1%nat, "proposal content assertion inside its own handler: the router dispatches on ProposalType() of the same content, so the dynamic type matches", []);
+  ("x/spending.ApplySpendingPoolWithdrawProposalHandler.VoteEnactment", "assert", 1%nat, "proposal content assertion inside its own handler: the router dispatches on ProposalType() of the same content, so the dynamic type matches", []);
+  ("x/spending.ApplySpendingPoolWithdrawProposalHandler.VotePeriod", "assert", 1%nat, "proposal content assertion inside its own handler: the router dispatches on ProposalType() of the same content, so the dynamic type matches", []);
+  ("x/spending.ApplyUpdateSpendingPoolProposalHandler.AllowedAddresses", "assert", 1%nat, "proposal content assertion inside its own handler: the router dispatches on ProposalType() of the same content, so the dynamic type matches", []);
+  ("x/spending.ApplyUpdateSpendingPoolProposalHandler.Apply", "assert", 1%nat, "proposal content assertion inside its own handler: the router dispatches on ProposalType() of the same content, so the dynamic type matches", []);
+  ("x/spending.ApplyUpdateSpendingPoolProposalHandler.IsAllowedAddress", "assert", 1%nat, "proposal content assertion inside its own handler: the router dispatches on ProposalType() of the same content, so the dynamic type matches", []);
+  ("x/spending.ApplyUpdateSpendingPoolProposalHandler.Quorum", "assert", 1%nat, "proposal content assertion inside its own handler: the router dispatches on ProposalType() of the same content, so the dynamic type matches", []);
+  ("x/spending.ApplyUpdateSpendingPoolProposalHandler.VoteEnactment", "assert", 1%nat, "proposal content assertion inside its own handler: the router dispatches on ProposalType() of the same content, so the dynamic type matches", []);
+  ("x/spending.ApplyUpdateSpendingPoolProposalHandler.VotePeriod", "assert", 1%nat, "proposal content assertion inside its own handler: the router dispatches on ProposalType() of the same content, so the dynamic type matches", []);
+  ("x/spending/keeper.Keeper.AllowedAddresses", "index", 4%nat, "map lookup or index bounded by the enclosing loop / length check", ["6264758094c83280"]);
+  ("x/spending/keeper.Keeper.EndBlocker", "must", 1%nat, "decodes bytes (or re-parses an address) that this module stored itself with the matching Marshal; layer2 TeamReserve / basket denoms validated at creation -- audited by kind", []);
+  ("x/spending/keeper.Keeper.GetAllSpendingPools", "must", 1%nat, "decodes bytes (or re-parses an address) that this module stored itself with the matching Marshal; layer2 TeamReserve / basket denoms validated at creation -- audited by kind", []);
+  ("x/spending/keeper.Keeper.GetBeneficiaryWeight", "index", 2%nat, "map lookup or index bounded by the enclosing loop / length check", ["6a5e9d7ee8132d01"]);
+  ("x/spending/keeper.Keeper.GetClaimInfo", "must", 1%nat, "decodes bytes (or re-parses an address) that this module stored itself with the matching Marshal; layer2 TeamReserve / basket denoms validated at creation -- audited by kind", []);
+  ("x/spending/keeper.Keeper.GetPoolClaimInfos", "must", 1%nat, "decodes bytes (or re-parses an address) that this module stored itself with the matching Marshal; layer2 TeamReserve / basket denoms validated at creation -- audited by kind", []);
+  ("x/spending/keeper.Keeper.GetSpendingPool", "must", 1%nat, "decodes bytes (or re-parses an address) that this module stored itself with the matching Marshal; layer2 TeamReserve / basket denoms validated at creation -- audited by kind", []);
+  ("x/spending/keeper.Keeper.IsAllowedAddress", "index", 2%nat, "map lookup or index bounded by the enclosing loop / length check", ["3e2ff6da40835b6c"]);
+  ("x/spending/keeper.Keeper.IsAllowedBeneficiary", "index", 2%nat, "map lookup or index bounded by the enclosing loop / length check", ["2107107913c16f7d"]);
+  ("x/spending/keeper.Keeper.SetClaimInfo", "must", 1%nat, "decodes bytes (or re-parses an address) that this module stored itself with the matching Marshal; layer2 TeamReserve / basket denoms validated at creation -- audited by kind", []);
+  ("x/spending/keeper.Keeper.SetSpendingPool", "must", 1%nat, "decodes bytes (or re-parses an address) that this module stored itself with the matching Marshal; layer2 TeamReserve / basket denoms validated at creation -- audited by kind", []);
+  ("x/spending/types.ValidateSpendingPoolName", "must", 1%nat, "decodes bytes (or re-parses an address) that this module stored itself with the matching Marshal; layer2 TeamReserve / basket denoms validated at creation -- audited by kind", []);
+  ("x/staking.ApplyUnjailValidatorProposalHandler.Apply", "assert", 1%nat, "proposal content assertion inside its own handler: the router dispatches on ProposalType() of the same content, so the dynamic type matches", []);
+  ("x/staking/keeper.Keeper.AddValidator", "must", 1%nat, "decodes bytes (or re-parses an address) that this module stored itself with the matching Marshal; layer2 TeamReserve / basket denoms validated at creation -- audited by kind", []);
+  ("x/staking/keeper.Keeper.GetPendingValidatorSet", "must", 1%nat, "decodes bytes (or re-parses an address) that this module stored itself with the matching Marshal; layer2 TeamReserve / basket denoms validated at creation -- audited by kind", []);
+  ("x/staking/keeper.Keeper.GetValidatorJailInfo", "must", 1%nat, "decodes bytes (or re-parses an address) that this module stored itself with the matching Marshal; layer2 TeamReserve / basket denoms validated at creation -- audited by kind", []);
+  ("x/staking/keeper.Keeper.GetValidatorSet", "must", 1%nat, "decodes bytes (or re-parses an address) that this module stored itself with the matching Marshal; layer2 TeamReserve / basket denoms validated at creation -- audited by kind", []);
+  ("x/staking/keeper.Keeper.Inactivate", "sub", 1%nat, "sdk.Int / time subtraction or Coins.Sub guarded by an error-returning balance check before it", ["9ac003aa6a758626"]);
+  ("x/staking/keeper.Keeper.PauseProposalNotApprovedValidators", "index", 3%nat, "map lookup or index bounded by the enclosing loop / length check", ["66185722e22265cb"]);
+  ("x/staking/keeper.Keeper.getValidatorByKey", "must", 1%nat, "decodes bytes (or re-parses an address) that this module stored itself with the matching Marshal; layer2 TeamReserve / basket denoms validated at creation -- audited by kind", []);
+  ("x/staking/keeper.Keeper.setJailValidatorInfo", "must", 1%nat, "decodes bytes (or re-parses an address) that this module stored itself with the matching Marshal; layer2 TeamReserve / basket denoms validated at creation -- audited by kind", []);
+  ("x/tokens.ApplyUpsertTokenInfosProposalHandler.Apply", "assert", 1%nat, "proposal content assertion inside its own handler: the router dispatches on ProposalType() of the same content, so the dynamic type matches", []);
+  ("x/tokens.ApplyWhiteBlackChangeProposalHandler.Apply", "assert", 1%nat, "proposal content assertion inside its own handler: the router dispatches on ProposalType() of the same content, so the dynamic type matches", []);
+  ("x/tokens/keeper.Keeper.BurnCoins", "sub", 1%nat, "sdk.Int / time subtraction or Coins.Sub guarded by an error-returning balance check before it", ["2ed9f7be1df98e38"]);
+  ("x/tokens/keeper.Keeper.GetAllTokenInfos", "must", 1%nat, "decodes bytes (or re-parses an address) that this module stored itself with the matching Marshal; layer2 TeamReserve / basket denoms validated at creation -- audited by kind", []);
+  ("x/tokens/keeper.Keeper.GetTokenBlackWhites", "must", 1%nat, "decodes bytes (or re-parses an address) that this module stored itself with the matching Marshal; layer2 TeamReserve / basket denoms validated at creation -- audited by kind", []);
+  ("x/tokens/keeper.Keeper.GetTokenInfo", "must", 1%nat, "decodes bytes (or re-parses an address) that this module stored itself with the matching Marshal; layer2 TeamReserve / basket denoms validated at creation -- audited by kind", []);
+  ("x/tokens/keeper.Keeper.SetTokenBlackWhites", "must", 1%nat, "decodes bytes (or re-parses an address) that this module stored itself with the matching Marshal; layer2 TeamReserve / basket denoms validated at creation -- audited by kind", []);
+  ("x/tokens/keeper.Keeper.UpsertTokenInfo", "must", 1%nat, "decodes bytes (or re-parses an address) that this module stored itself with the matching Marshal; layer2 TeamReserve / basket denoms validated at creation -- audited by kind", []);
+  ("x/tokens/keeper.removeTokens", "index", 2%nat, "map lookup or index bounded by the enclosing loop / length check", ["1f05d5b4a9af8ad0"]);
+  ("x/ubi.ApplyRemoveUBIProposalHandler.Apply", "assert", 1%nat, "proposal content assertion inside its own handler: the router dispatches on ProposalType() of the same content, so the dynamic type matches", []);
+  ("x/ubi.ApplyUpsertUBIProposalHandler.Apply", "assert", 1%nat, "proposal content assertion inside its own handler: the router dispatches on ProposalType() of the same content, so the dynamic type matches", []);
+  ("x/ubi/keeper.Keeper.GetUBIRecordByName", "must", 1%nat, "decodes bytes (or re-parses an address) that this module stored itself with the matching Marshal; layer2 TeamReserve / basket denoms validated at creation -- audited by kind", []);
+  ("x/ubi/keeper.Keeper.ProcessUBIRecord", "sub", 1%nat, "sdk.Int arithmetic: no panic", ["26285f1f55e768c8"; "6afc9f007454305b"]);
+  ("x/ubi/keeper.Keeper.SetUBIRecord", "must", 1%nat, "decodes bytes (or re-parses an address) that this module stored itself with the matching Marshal; layer2 TeamReserve / basket denoms validated at creation -- audited by kind", []);
+  ("x/upgrade.ApplySoftwareUpgradeProposalHandler.Apply", "assert", 1%nat, "proposal content assertion inside its own handler: the router dispatches on ProposalType() of the same content, so the dynamic type matches", []);
+  ("x/upgrade/keeper.Keeper.ApplyUpgradePlan", "index", 1%nat, "map lookup or index bounded by the enclosing loop / length check", ["9972c898b1ebca59"]);
+  ("x/upgrade/keeper.Keeper.SaveCurrentPlan", "panic", 1%nat, "unreachable: guards a store / codec invariant (record written together with its index)", ["2375fe2d93f5e3c7"]);
+  ("x/upgrade/keeper.Keeper.setNextPlan", "panic", 1%nat, "unreachable: guards a store / codec invariant (record written together with its index)", ["d4933c66b4ada575"])
 ].
 
-Definition entry_matches (s : string * string * string * string * nat) (e : string * string * nat * string) : bool :=
-  let '(_, fn, _, kind, ord) := s in let '(efn, ekind, n, _) := e in
+Definition entry_matches (s : string * string * string * string * nat) (e : string * string * nat * string * list string) : bool :=
+  let '(_, fn, _, kind, ord) := s in let '(efn, ekind, n, _, _) := e in
   String.eqb fn efn && String.eqb kind ekind && Nat.ltb ord n.
 Definition covered (s : string * string * string * string * nat) : bool := existsb (entry_matches s) covered_table.
 Definition audited (s : string * string * string * string * nat) : bool := existsb (entry_matches s) audit_table.
 
 Lemma panic_sites_accounted : gen_errors = [] /\ forallb (fun s => covered s || audited s) sites = true.
 Proof. split; vm_compute; reflexivity. Qed.
+(* An audit verdict is given for the CODE of the function, not for its name: every audited function with a
+   division / subtraction / coin-constructor / panic / index site is pinned by the fingerprint of its
+   comment- and whitespace-normalised declaration (several accepted fingerprints = trees with pending fix
+   patches applied).  A changed function breaks this obligation and triggers the widened search. *)
+Fixpoint fp_lookup (fn : string) (l : list (string * string)) : option string :=
+  match l with [] => None | (f, h) :: r => if String.eqb f fn then Some h else fp_lookup fn r end.
+Definition fp_ok (e : string * string * nat * string * list string) : bool :=
+  let '(fn, _, _, _, fps) := e in
+  match fps with [] => true | _ => match fp_lookup fn fn_fingerprints with Some h => str_in h fps | None => false end end.
+Definition changed_audited_functions : list string :=
+  map (fun e => let '(fn, _, _, _, _) := e in fn) (filter (fun e => negb (fp_ok e)) audit_table).
+Lemma audited_functions_unchanged : changed_audited_functions = [].
+Proof. vm_compute. reflexivity. Qed.
+Theorem C06_audited_functions_unchanged : changed_audited_functions = [].
+Proof. exact audited_functions_unchanged. Qed.
+Print Assumptions C06_audited_functions_unchanged.
+
 Theorem C06_panic_sites_accounted : gen_errors = [] /\ forallb (fun s => covered s || audited s) sites = true.
 Proof. exact panic_sites_accounted. Qed.
 Print Assumptions C06_panic_sites_accounted.
